@@ -75,8 +75,15 @@ Fixpoint nohost (k : cbk) : Prop :=
   | KAddr _ k' _ => nohost k'
   end.
 
-Definition nohost_call (c : call) : Prop :=
-  match c with AGai _ _ _ _ _ | AGhbn _ _ _ _ _ => False | _ => True end.
+(* the host_query a closure ends in (host_callback's argument) *)
+Fixpoint kbot (k : cbk) : option obj :=
+  match k with
+  | KUser _ | KProbe => None
+  | KHost o => Some o
+  | KWrap _ _ k' => kbot k'
+  | KSearch _ k' _ _ _ => kbot k'
+  | KAddr _ k' _ => kbot k'
+  end.
 
 (* ---------------------------------------------------------------------------------- *)
 (* Reading the state                                                                   *)
@@ -86,17 +93,44 @@ Definition linked (s : state) : list obj := concat (st_lists s).
 Definition qchain (s : state) (qo : obj) : list obj :=
   match cell_of s qo with Some (CQuery q) => cobjs (q_cb q) | _ => [] end.
 Definition chain (s : state) : list obj := flat_map (qchain s) (linked s).
-Definition rooted (s : state) (x : obj) : Prop := In x (linked s) \/ In x (st_conns s) \/ In x (chain s).
+
+(* host_query states.  A host_query with remaining > 0 is *shared*: the queries of the lookup
+   in progress point at it (through their callback closures) and whoever completes the last
+   of them releases it.  With remaining = 0 it belongs to the function that is working on it
+   (next_lookup / end_hquery), like the objects of [Own]. *)
+Definition host_at (s : state) (o : obj) : option hostq :=
+  match cell_of s o with Some (CHost h) => Some h | _ => None end.
+Definition shared_at (s : state) (o : obj) : option hostq :=
+  match cell_of s o with Some (CHost h) => if Nat.ltb 0 (h_remaining h) then Some h else None | _ => None end.
+Definition href (s : state) (qo : obj) : option obj :=
+  match cell_of s qo with Some (CQuery q) => kbot (q_cb q) | _ => None end.
+Definition refs_to (s : state) (o : obj) : list obj :=
+  filter (fun qo => match href s qo with Some o' => Nat.eqb o o' | None => false end) (linked s).
+Definition nrefs (s : state) (o : obj) : nat := length (refs_to s o).
+(* the objects of the application callbacks stored in shared host_query states *)
+Definition hcb_objs (s : state) (o : obj) : list obj :=
+  match shared_at s o with Some h => cobjs (h_cb h) | None => [] end.
+Definition hobjs (s : state) : list obj := flat_map (hcb_objs s) (seq 0 (st_next s)).
+
+Definition rooted (s : state) (x : obj) : Prop :=
+  In x (linked s) \/ In x (st_conns s) \/ In x (chain s) \/ In x (hobjs s).
 
 Definition heap_ok (s : state) : Prop :=
   (forall o c, cell_of s o = Some c -> o < st_next s /\ ~ In o (st_freed s))
   /\ (forall o, In o (st_freed s) -> o < st_next s).
 
+Record HostInv (s : state) : Prop := {
+  hi_ref : forall qo o, In qo (linked s) -> href s qo = Some o -> exists h, shared_at s o = Some h;
+  hi_cnt : forall o h, shared_at s o = Some h -> nrefs s o <= h_remaining h;
+  hi_nohost : forall o h, shared_at s o = Some h -> nohost (h_cb h);
+  hi_objs : NoDup (hobjs s) /\ forall x, In x (hobjs s) -> cell_of s x = Some COpaque /\ ~ In x (chain s)
+}.
+
 (* x: the query process_answer() has taken off its connection's list but not yet requeued/ended *)
 Record InvX (x : option obj) (s : state) : Prop := {
   inv_heap : heap_ok s;
   inv_nodup : NoDup (linked s);
-  inv_query : forall qo, In qo (linked s) -> exists q, cell_of s qo = Some (CQuery q) /\ nohost (q_cb q);
+  inv_query : forall qo, In qo (linked s) -> exists q, cell_of s qo = Some (CQuery q);
   inv_byqid : forall qid qo, lookup qid (st_byqid s) = Some qo ->
                 In qo (linked s) /\ forall q, cell_of s qo = Some (CQuery q) -> q_qid q = qid;
   inv_bytmo : forall qo, In qo (st_bytmo s) ->
@@ -108,8 +142,7 @@ Record InvX (x : option obj) (s : state) : Prop := {
   inv_closed : forall co c, cell_of s co = Some (CConn c) -> c_closed c = true ->
                 ~ In co (st_conns s) /\ c_queries c = [];
   inv_chain : NoDup (chain s) /\ forall o, In o (chain s) -> cell_of s o = Some COpaque;
-  inv_nohost_cells : forall o h, cell_of s o <> Some (CHost h);
-  inv_scripts : forall t l c, lookup t (st_scripts s) = Some l -> In c l -> nohost_call c
+  inv_hosts : HostInv s
 }.
 Definition Inv := InvX None.
 
@@ -117,19 +150,46 @@ Definition Inv := InvX None.
 Definition Own (s : state) (L : list obj) : Prop :=
   NoDup L /\ forall o, In o L -> cell_of s o = Some COpaque /\ ~ rooted s o.
 
+(* what a callee guarantees about the shared host_query states.  g: the callee was handed one of
+   the answers host_query g is waiting for (a closure ending in KHost g that is not held by a
+   linked query): it either links a query carrying it or delivers it.  For every shared
+   host_query, "answers it waits for" minus "linked queries pointing at it" changes by exactly
+   that; it stays alive while the difference is positive; no host_query is left behind. *)
+Definition dg (g : option obj) (o : obj) : nat :=
+  match g with Some o' => if Nat.eqb o o' then 1 else 0 | None => 0 end.
+
+Record HFrame (g : obj -> nat) (s s' : state) : Prop := {
+  hf_host : forall o h, shared_at s o = Some h -> nrefs s o + g o <= h_remaining h ->
+              (nrefs s o + g o < h_remaining h -> exists h', cell_of s' o = Some (CHost h'))
+              /\ (forall h', cell_of s' o = Some (CHost h') ->
+                     0 < h_remaining h' /\ h_cb h' = h_cb h
+                     /\ h_remaining h' + nrefs s o + g o = nrefs s' o + h_remaining h);
+  hf_new : forall o h', st_next s <= o -> cell_of s' o = Some (CHost h') ->
+              0 < h_remaining h' /\ h_remaining h' = nrefs s' o;
+  hf_old : forall o h', o < st_next s -> cell_of s' o = Some (CHost h') -> exists h, cell_of s o = Some (CHost h);
+  hf_lt : forall o h, shared_at s o = Some h -> o < st_next s
+}.
+
 (* what a callee guarantees about the objects it was not given *)
-Record Frame (s s' : state) (L : list obj) : Prop := {
+Record FrameG (g : obj -> nat) (s s' : state) (L : list obj) : Prop := {
   fr_cell : forall x c, cell_of s x = Some c -> ~ rooted s x -> ~ In x L ->
               match c with
               | CConn cc => exists cc', cell_of s' x = Some (CConn cc') /\ ~ rooted s' x
                                         /\ c_reading cc' = c_reading cc /\ c_closed cc' = c_closed cc
                                         /\ c_sock cc' = c_sock cc /\ incl (c_queries cc') (c_queries cc)
+              | CHost h => h_remaining h = 0 -> cell_of s' x = Some c /\ ~ rooted s' x
               | _ => cell_of s' x = Some c /\ ~ rooted s' x
               end;
   fr_reading : forall x cc, cell_of s x = Some (CConn cc) -> c_reading cc = true ->
               exists cc', cell_of s' x = Some (CConn cc') /\ c_reading cc' = true /\ c_sock cc' = c_sock cc;
-  fr_next : st_next s <= st_next s'
+  fr_next : st_next s <= st_next s';
+  fr_hosts : HFrame g s s'
 }.
+Notation Frame := (FrameG (dg None)).
+
+(* the caller of a function that is handed an answer of host_query g knows that g waits for it *)
+Definition GivenOk (s : state) (g : option obj) : Prop :=
+  match g with None => True | Some o => exists h, shared_at s o = Some h /\ nrefs s o < h_remaining h end.
 
 (* ---------------------------------------------------------------------------------- *)
 (* lookup / remove_key / remove_nat                                                    *)
@@ -252,8 +312,133 @@ Proof.
 Qed.
 Lemma ce_conns s s' : core_eq s s' -> st_conns s' = st_conns s.
 Proof. intros [_ [_ [_ [_ [_ [_ E]]]]]]. exact E. Qed.
+(* ---- the host_query view of a state ---- *)
+Lemma shared_host s o h : shared_at s o = Some h -> cell_of s o = Some (CHost h) /\ 0 < h_remaining h.
+Proof.
+  unfold shared_at. destruct (cell_of s o) as [[q|c|h0|]|]; try discriminate.
+  destruct (Nat.ltb 0 (h_remaining h0)) eqn:E; [|discriminate]. intros H. inversion H; subst.
+  apply Nat.ltb_lt in E. auto.
+Qed.
+
+Lemma shared_intro s o h : cell_of s o = Some (CHost h) -> 0 < h_remaining h -> shared_at s o = Some h.
+Proof. intros Hc Hr. unfold shared_at. rewrite Hc. apply Nat.ltb_lt in Hr. rewrite Hr. reflexivity. Qed.
+
+Lemma host_at_some s o h : host_at s o = Some h <-> cell_of s o = Some (CHost h).
+Proof.
+  unfold host_at. destruct (cell_of s o) as [[q|c|h0|]|]; split; intros H; try discriminate; inversion H; reflexivity.
+Qed.
+
+Lemma shared_of_host_at s s' : (forall o, host_at s' o = host_at s o) -> forall o, shared_at s' o = shared_at s o.
+Proof.
+  intros H o. specialize (H o). unfold host_at, shared_at in *.
+  destruct (cell_of s' o) as [[q|c|h|]|], (cell_of s o) as [[q0|c0|h0|]|]; try discriminate; auto.
+  inversion H; reflexivity.
+Qed.
+
+Lemma flat_map_nil {A B} (f : A -> list B) l : (forall a, In a l -> f a = []) -> flat_map f l = [].
+Proof.
+  induction l as [|a l IH]; simpl; intros H; auto. rewrite H by (left; auto). simpl. apply IH.
+  intros b Hb. apply H. right; auto.
+Qed.
+
+Lemma shared_lt s o h : heap_ok s -> shared_at s o = Some h -> o < st_next s.
+Proof. intros [H _] Hs. destruct (shared_host _ _ _ Hs) as [Hc _]. destruct (H _ _ Hc). auto. Qed.
+
+Lemma hobjs_same s s' :
+  heap_ok s -> st_next s <= st_next s' -> (forall o, shared_at s' o = shared_at s o) -> hobjs s' = hobjs s.
+Proof.
+  intros Hh Hn Hs. unfold hobjs.
+  replace (st_next s') with (st_next s + (st_next s' - st_next s)) by lia.
+  rewrite seq_app, flat_map_app. rewrite (flat_map_nil _ (seq (0 + st_next s) _)).
+  - rewrite app_nil_r. apply flat_map_ext. intros o. unfold hcb_objs. rewrite Hs. reflexivity.
+  - intros o Ho. apply in_seq in Ho. unfold hcb_objs. rewrite Hs.
+    destruct (shared_at s o) as [h|] eqn:E; auto. pose proof (shared_lt _ _ _ Hh E). lia.
+Qed.
+
+Lemma in_hobjs s x : heap_ok s -> (In x (hobjs s) <-> exists o h, shared_at s o = Some h /\ In x (cobjs (h_cb h))).
+Proof.
+  intros Hh. unfold hobjs. rewrite in_flat_map. split.
+  - intros [o [_ Hx]]. unfold hcb_objs in Hx. destruct (shared_at s o) as [h|] eqn:E; [|destruct Hx]. eauto.
+  - intros [o [h [E Hx]]]. exists o. split.
+    + apply in_seq. pose proof (shared_lt _ _ _ Hh E). lia.
+    + unfold hcb_objs. rewrite E. exact Hx.
+Qed.
+
+Lemma nrefs_same s s' :
+  linked s' = linked s -> (forall qo, In qo (linked s) -> href s' qo = href s qo) -> forall o, nrefs s' o = nrefs s o.
+Proof.
+  intros El Hr o. unfold nrefs, refs_to. rewrite El. f_equal. apply filter_ext_in. intros qo Hq. rewrite Hr; auto.
+Qed.
+
+Lemma href_same s s' qo : cell_of s' qo = cell_of s qo -> href s' qo = href s qo.
+Proof. intros H. unfold href. rewrite H. reflexivity. Qed.
+
+(* a state change that leaves the shared host_query states, the linked queries and their
+   closures alone *)
+Lemma hostinv_same s s' :
+  HostInv s -> heap_ok s -> st_next s <= st_next s' ->
+  linked s' = linked s -> (forall qo, In qo (linked s) -> href s' qo = href s qo) ->
+  (forall o, shared_at s' o = shared_at s o) ->
+  (forall x, In x (hobjs s) -> cell_of s' x = Some COpaque) ->
+  (forall x, In x (chain s') -> In x (chain s)) ->
+  HostInv s'.
+Proof.
+  intros [H1 H2 H3 [H4 H5]] Hh Hn El Hr Hs Hop Hch.
+  pose proof (hobjs_same _ _ Hh Hn Hs) as Eo. pose proof (nrefs_same _ _ El Hr) as En.
+  constructor.
+  - intros qo o. rewrite El. intros Hq. rewrite (Hr _ Hq), Hs. apply H1; auto.
+  - intros o h. rewrite Hs, En. apply H2.
+  - intros o h. rewrite Hs. apply H3.
+  - rewrite Eo. split; auto. intros x Hx. split; [apply Hop; exact Hx|].
+    intros Hc. apply Hch in Hc. destruct (H5 _ Hx) as [_ H6]. contradiction.
+Qed.
+
+Lemma hframe_same_gen s s' :
+  heap_ok s -> st_next s <= st_next s' ->
+  linked s' = linked s -> (forall qo, In qo (linked s) -> href s' qo = href s qo) ->
+  (forall o h, shared_at s o = Some h -> cell_of s' o = Some (CHost h)) ->
+  (forall o h', cell_of s' o = Some (CHost h') -> exists h, cell_of s o = Some (CHost h)) ->
+  HFrame (dg None) s s'.
+Proof.
+  intros Hh Hn El Hr H1 H2. pose proof (nrefs_same _ _ El Hr) as En.
+  constructor.
+  - intros o h Hs _. destruct (shared_host _ _ _ Hs) as [Hc Hpos].
+    pose proof (H1 _ _ Hs) as Hc'.
+    split; [eauto|]. intros h' Hh'. rewrite Hc' in Hh'. inversion Hh'; subst h'.
+    rewrite En. simpl. repeat split; auto. lia.
+  - intros o h' Ho Hc. destruct (H2 _ _ Hc) as [h Hc0].
+    destruct Hh as [Hl _]. destruct (Hl _ _ Hc0). lia.
+  - intros o h' _ Hc. eauto.
+  - intros o h Hs. eapply shared_lt; eauto.
+Qed.
+
+Lemma hframe_same s s' :
+  heap_ok s -> st_next s <= st_next s' ->
+  linked s' = linked s -> (forall qo, In qo (linked s) -> href s' qo = href s qo) ->
+  (forall o, host_at s' o = host_at s o) ->
+  HFrame (dg None) s s'.
+Proof.
+  intros Hh Hn El Hr Ha. apply hframe_same_gen; auto.
+  - intros o h Hs. destruct (shared_host _ _ _ Hs) as [Hc _]. apply host_at_some. rewrite Ha. apply host_at_some. exact Hc.
+  - intros o h' Hc. apply host_at_some in Hc. rewrite Ha in Hc. apply host_at_some in Hc. eauto.
+Qed.
+
+Lemma ce_host_at s s' o : core_eq s s' -> host_at s' o = host_at s o.
+Proof. intros E. unfold host_at. rewrite (ce_cell _ _ _ E). reflexivity. Qed.
+Lemma ce_shared s s' o : core_eq s s' -> shared_at s' o = shared_at s o.
+Proof. intros E. unfold shared_at. rewrite (ce_cell _ _ _ E). reflexivity. Qed.
+Lemma ce_href s s' o : core_eq s s' -> href s' o = href s o.
+Proof. intros E. unfold href. rewrite (ce_cell _ _ _ E). reflexivity. Qed.
+Lemma ce_nrefs s s' o : core_eq s s' -> nrefs s' o = nrefs s o.
+Proof. intros E. apply nrefs_same; [apply ce_linked; auto|]. intros qo _. apply ce_href; auto. Qed.
+Lemma ce_hobjs s s' : core_eq s s' -> hobjs s' = hobjs s.
+Proof.
+  intros E. unfold hobjs. destruct E as [En E']. rewrite En. apply flat_map_ext. intros o. unfold hcb_objs.
+  rewrite (ce_shared s s'); auto. unfold core_eq; auto.
+Qed.
+
 Lemma ce_rooted s s' x : core_eq s s' -> (rooted s' x <-> rooted s x).
-Proof. intros E. unfold rooted. rewrite (ce_linked _ _ E), (ce_conns _ _ E), (ce_chain _ _ E). tauto. Qed.
+Proof. intros E. unfold rooted. rewrite (ce_linked _ _ E), (ce_conns _ _ E), (ce_chain _ _ E), (ce_hobjs _ _ E). tauto. Qed.
 Lemma ce_heap s s' : core_eq s s' -> heap_ok s -> heap_ok s'.
 Proof.
   intros E. unfold heap_ok. intros [H1 H2]. pose proof (fun o => ce_cell _ _ o E) as Ec.
@@ -265,24 +450,43 @@ Lemma ce_own s s' L : core_eq s s' -> Own s L -> Own s' L.
 Proof.
   intros E [H1 H2]. split; auto. intros o Ho. rewrite (ce_cell _ _ _ E), (ce_rooted _ _ _ E). auto.
 Qed.
-Lemma ce_frame_refl s s' : core_eq s s' -> Frame s s' [].
+Lemma ce_hostinv s s' : core_eq s s' -> heap_ok s -> HostInv s -> HostInv s'.
 Proof.
-  intros E. constructor.
+  intros E Hh HI. apply (hostinv_same s s'); auto.
+  - destruct E as [-> _]. lia.
+  - apply ce_linked; auto.
+  - intros qo _. apply ce_href; auto.
+  - intros o. apply ce_shared; auto.
+  - intros x Hx. rewrite (ce_cell _ _ _ E). destruct (hi_objs _ HI) as [_ H]. apply H; auto.
+  - intros x. rewrite (ce_chain _ _ E). auto.
+Qed.
+Lemma ce_hframe s s' : core_eq s s' -> heap_ok s -> HFrame (dg None) s s'.
+Proof.
+  intros E Hh. apply hframe_same; auto.
+  - destruct E as [-> _]. lia.
+  - apply ce_linked; auto.
+  - intros qo _. apply ce_href; auto.
+  - intros o. apply ce_host_at; auto.
+Qed.
+Lemma ce_frame_refl s s' : core_eq s s' -> heap_ok s -> Frame s s' [].
+Proof.
+  intros E Hh. constructor.
   - intros x c Hc Hr _.
     assert (Hr' : ~ rooted s' x) by (rewrite (ce_rooted _ _ _ E); exact Hr).
     destruct c; try (rewrite (ce_cell _ _ _ E); split; assumption).
     exists c. rewrite (ce_cell _ _ _ E). repeat split; auto. apply incl_refl.
   - intros x cc Hc Hr. exists cc. rewrite (ce_cell _ _ _ E). auto.
   - destruct E as [-> _]. lia.
+  - apply ce_hframe; auto.
 Qed.
 
 Lemma ce_inv x s s' :
   core_eq s s' ->
-  (forall t l c, lookup t (st_scripts s') = Some l -> In c l -> nohost_call c) ->
   InvX x s -> InvX x s'.
 Proof.
-  intros E Hs I. destruct I.
+  intros E I. pose proof (inv_hosts _ _ I) as HI. destruct I.
   assert (Ec := fun o => ce_cell _ _ o E). assert (El := ce_linked _ _ E). assert (Eh := ce_chain _ _ E).
+  assert (Hho : HostInv s') by (apply (ce_hostinv s); auto).
   destruct E as [En [Ecs [Ef [Els [Eq [Et Eco]]]]]].
   constructor.
   - apply (ce_heap s); auto. unfold core_eq; repeat split; auto.
@@ -298,8 +502,7 @@ Proof.
     exists c. rewrite Ec. auto.
   - intros co c. rewrite Ec, Eco. auto.
   - rewrite Eh. destruct inv_chain0 as [H1 H2]. split; auto. intros o Ho. rewrite Ec. auto.
-  - intros o h. rewrite Ec. auto.
-  - exact Hs.
+  - exact Hho.
 Qed.
 
 Lemma inv_weaken s x : Inv s -> InvX x s.
@@ -312,43 +515,117 @@ Qed.
 (* ---------------------------------------------------------------------------------- *)
 (* Frame: composition                                                                  *)
 (* ---------------------------------------------------------------------------------- *)
-Lemma frame_trans s1 s2 s3 L1 L2 : Frame s1 s2 L1 -> Frame s2 s3 L2 -> Frame s1 s3 (L1 ++ L2).
+Definition gsum (g1 g2 g : obj -> nat) : Prop := forall o, g1 o + g2 o = g o.
+
+Lemma gsum_l g : gsum g (dg None) g.
+Proof. intros o. simpl. lia. Qed.
+Lemma gsum_r g : gsum (dg None) g g.
+Proof. intros o. reflexivity. Qed.
+
+Lemma hframe_trans g1 g2 g s1 s2 s3 :
+  gsum g1 g2 g -> (forall o, 0 < g2 o -> o < st_next s1) ->
+  st_next s1 <= st_next s2 -> HFrame g1 s1 s2 -> HFrame g2 s2 s3 -> HFrame g s1 s3.
 Proof.
-  intros F1 F2. constructor.
+  intros Hg Hlt Hn F1 F2. constructor.
+  - intros o h Hs Hd. pose proof (Hg o) as Eg.
+    destruct (hf_host _ _ _ F1 _ _ Hs ltac:(lia)) as [A1 A2]. split.
+    + intros Hl. destruct (A1 ltac:(lia)) as [h2 Hc2]. destruct (A2 _ Hc2) as [Hp2 [Ecb2 Er2]].
+      assert (Hs2 : shared_at s2 o = Some h2) by (apply shared_intro; auto).
+      destruct (hf_host _ _ _ F2 _ _ Hs2 ltac:(lia)) as [B1 _]. apply B1. lia.
+    + intros h3 Hc3. pose proof (hf_lt _ _ _ F1 _ _ Hs) as Ho.
+      destruct (hf_old _ _ _ F2 o h3 ltac:(lia) Hc3) as [h2 Hc2].
+      destruct (A2 _ Hc2) as [Hp2 [Ecb2 Er2]].
+      assert (Hs2 : shared_at s2 o = Some h2) by (apply shared_intro; auto).
+      destruct (hf_host _ _ _ F2 _ _ Hs2 ltac:(lia)) as [_ B2].
+      destruct (B2 _ Hc3) as [Hp3 [Ecb3 Er3]]. repeat split; auto; try congruence. lia.
+  - intros o h3 Ho Hc3. destruct (Nat.le_gt_cases (st_next s2) o) as [Hge|Hlt2].
+    + exact (hf_new _ _ _ F2 _ _ Hge Hc3).
+    + destruct (hf_old _ _ _ F2 o h3 Hlt2 Hc3) as [h2 Hc2].
+      destruct (hf_new _ _ _ F1 _ _ Ho Hc2) as [Hp2 Er2].
+      assert (Hs2 : shared_at s2 o = Some h2) by (apply shared_intro; auto).
+      assert (Hd2 : g2 o = 0).
+      { destruct (g2 o) as [|n] eqn:E; auto. specialize (Hlt o ltac:(lia)). lia. }
+      destruct (hf_host _ _ _ F2 _ _ Hs2 ltac:(lia)) as [_ B2].
+      destruct (B2 _ Hc3) as [Hp3 [_ Er3]]. split; auto. lia.
+  - intros o h3 Ho Hc3. destruct (hf_old _ _ _ F2 o h3 ltac:(lia) Hc3) as [h2 Hc2].
+    exact (hf_old _ _ _ F1 o h2 Ho Hc2).
+  - exact (hf_lt _ _ _ F1).
+Qed.
+
+Lemma frame_trans_g g1 g2 g s1 s2 s3 L1 L2 :
+  gsum g1 g2 g -> (forall o, 0 < g2 o -> o < st_next s1) ->
+  FrameG g1 s1 s2 L1 -> FrameG g2 s2 s3 L2 -> FrameG g s1 s3 (L1 ++ L2).
+Proof.
+  intros Hg Hlt F1 F2. constructor.
   - intros x c Hc Hr Hn.
     assert (Hn1 : ~ In x L1) by (intros H; apply Hn; apply in_or_app; auto).
     assert (Hn2 : ~ In x L2) by (intros H; apply Hn; apply in_or_app; auto).
-    pose proof (fr_cell _ _ _ F1 _ _ Hc Hr Hn1) as G1.
+    pose proof (fr_cell _ _ _ _ F1 _ _ Hc Hr Hn1) as G1.
     destruct c as [q|cc|h|].
-    + destruct G1 as [G1 G1']. exact (fr_cell _ _ _ F2 _ _ G1 G1' Hn2).
+    + destruct G1 as [G1 G1']. exact (fr_cell _ _ _ _ F2 _ _ G1 G1' Hn2).
     + destruct G1 as [cc' [G1 [G1' [Ea [Eb [Ec Ed]]]]]].
-      pose proof (fr_cell _ _ _ F2 _ _ G1 G1' Hn2) as G2. simpl in G2.
+      pose proof (fr_cell _ _ _ _ F2 _ _ G1 G1' Hn2) as G2. simpl in G2.
       destruct G2 as [cc'' [G2 [G2' [Ea' [Eb' [Ec' Ed']]]]]].
       exists cc''. repeat split; auto; try congruence. eapply incl_tran; eauto.
-    + destruct G1 as [G1 G1']. exact (fr_cell _ _ _ F2 _ _ G1 G1' Hn2).
-    + destruct G1 as [G1 G1']. exact (fr_cell _ _ _ F2 _ _ G1 G1' Hn2).
-  - intros x cc Hc Hr. destruct (fr_reading _ _ _ F1 _ _ Hc Hr) as [cc' [G1 [G2 G3]]].
-    destruct (fr_reading _ _ _ F2 _ _ G1 G2) as [cc'' [G4 [G5 G6]]]. exists cc''. repeat split; auto. congruence.
-  - pose proof (fr_next _ _ _ F1). pose proof (fr_next _ _ _ F2). lia.
+    + intros Hz. destruct (G1 Hz) as [G1a G1']. exact (fr_cell _ _ _ _ F2 _ _ G1a G1' Hn2 Hz).
+    + destruct G1 as [G1 G1']. exact (fr_cell _ _ _ _ F2 _ _ G1 G1' Hn2).
+  - intros x cc Hc Hr. destruct (fr_reading _ _ _ _ F1 _ _ Hc Hr) as [cc' [G1 [G2 G3]]].
+    destruct (fr_reading _ _ _ _ F2 _ _ G1 G2) as [cc'' [G4 [G5 G6]]]. exists cc''. repeat split; auto. congruence.
+  - pose proof (fr_next _ _ _ _ F1). pose proof (fr_next _ _ _ _ F2). lia.
+  - exact (hframe_trans g1 g2 g s1 s2 s3 Hg Hlt (fr_next _ _ _ _ F1) (fr_hosts _ _ _ _ F1) (fr_hosts _ _ _ _ F2)).
 Qed.
 
-Lemma frame_weaken s s' L L' : Frame s s' L -> incl L L' -> Frame s s' L'.
+Lemma frame_trans s1 s2 s3 L1 L2 : Frame s1 s2 L1 -> Frame s2 s3 L2 -> Frame s1 s3 (L1 ++ L2).
+Proof. apply frame_trans_g; [apply gsum_l|]. intros o H. simpl in H. lia. Qed.
+
+(* the callee that was handed the answer runs first / last *)
+Lemma frame_trans_gl g s1 s2 s3 L1 L2 : FrameG g s1 s2 L1 -> Frame s2 s3 L2 -> FrameG g s1 s3 (L1 ++ L2).
+Proof. apply frame_trans_g; [apply gsum_l|]. intros o H. simpl in H. lia. Qed.
+
+Lemma frame_trans_gr g s1 s2 s3 L1 L2 :
+  GivenOk s1 g -> heap_ok s1 -> Frame s1 s2 L1 -> FrameG (dg g) s2 s3 L2 -> FrameG (dg g) s1 s3 (L1 ++ L2).
+Proof.
+  intros Hg Hh. apply frame_trans_g; [apply gsum_r|]. intros o H.
+  unfold dg in H. destruct g as [o'|]; [|lia]. destruct (Nat.eqb o o') eqn:E; [|lia].
+  apply Nat.eqb_eq in E. subst o'. destruct Hg as [h [Hs _]]. eapply shared_lt; eauto.
+Qed.
+
+(* a frame whose handed-over answers concern no host_query that was shared at the start *)
+Lemma frameg_zero g s s' L :
+  FrameG g s s' L -> (forall o h, shared_at s o = Some h -> g o = 0) -> Frame s s' L.
+Proof.
+  intros F Hz. constructor.
+  - exact (fr_cell _ _ _ _ F).
+  - exact (fr_reading _ _ _ _ F).
+  - exact (fr_next _ _ _ _ F).
+  - pose proof (fr_hosts _ _ _ _ F) as HF. constructor.
+    + intros o h Hs Hd. pose proof (Hz _ _ Hs) as E. simpl in *.
+      destruct (hf_host _ _ _ HF _ _ Hs ltac:(lia)) as [A1 A2]. split.
+      * intros Hl. apply A1. lia.
+      * intros h' Hc'. destruct (A2 _ Hc') as [B1 [B2 B3]]. repeat split; auto. lia.
+    + exact (hf_new _ _ _ HF).
+    + exact (hf_old _ _ _ HF).
+    + exact (hf_lt _ _ _ HF).
+Qed.
+
+Lemma frame_weaken g s s' L L' : FrameG g s s' L -> incl L L' -> FrameG g s s' L'.
 Proof.
   intros F Hi. constructor.
-  - intros x c Hc Hr Hn. apply (fr_cell _ _ _ F _ _ Hc Hr). intros H. apply Hn. apply Hi. exact H.
-  - apply (fr_reading _ _ _ F).
-  - apply (fr_next _ _ _ F).
+  - intros x c Hc Hr Hn. apply (fr_cell _ _ _ _ F _ _ Hc Hr). intros H. apply Hn. apply Hi. exact H.
+  - apply (fr_reading _ _ _ _ F).
+  - apply (fr_next _ _ _ _ F).
+  - apply (fr_hosts _ _ _ _ F).
 Qed.
 
-Lemma frame_refl s : Frame s s [].
-Proof. apply ce_frame_refl. apply core_eq_refl. Qed.
+Lemma frame_refl x s : InvX x s -> Frame s s [].
+Proof. intros I. apply ce_frame_refl. apply core_eq_refl. exact (inv_heap _ _ I). Qed.
 
 (* an object owned by the caller stays owned across a callee that was not given it *)
-Lemma own_frame s s' L L' :
-  Own s L -> Frame s s' L' -> (forall o, In o L -> ~ In o L') -> Own s' L.
+Lemma own_frame g s s' L L' :
+  Own s L -> FrameG g s s' L' -> (forall o, In o L -> ~ In o L') -> Own s' L.
 Proof.
   intros [H1 H2] F Hd. split; auto. intros o' Ho. destruct (H2 _ Ho) as [Hc Hr].
-  pose proof (fr_cell _ _ _ F _ _ Hc Hr (Hd _ Ho)) as G. simpl in G. exact G.
+  pose proof (fr_cell _ _ _ _ F _ _ Hc Hr (Hd _ Ho)) as G. simpl in G. exact G.
 Qed.
 
 Lemma own_app s L1 L2 : Own s (L1 ++ L2) -> Own s L1 /\ Own s L2 /\ (forall o, In o L1 -> ~ In o L2).
@@ -496,10 +773,11 @@ Proof. reflexivity. Qed.
 (* every rooted object is live *)
 Lemma rooted_live x s o : InvX x s -> rooted s o -> exists c, cell_of s o = Some c.
 Proof.
-  intros I [H|[H|H]].
-  - destruct (inv_query _ _ I _ H) as [q [Hq _]]. eauto.
+  intros I [H|[H|[H|H]]].
+  - destruct (inv_query _ _ I _ H) as [q Hq]. eauto.
   - destruct (inv_conns _ _ I) as [_ Hc]. destruct (Hc _ H) as [c [Hc' _]]. eauto.
   - destruct (inv_chain _ _ I) as [_ Hc]. rewrite (Hc _ H). eauto.
+  - destruct (hi_objs _ (inv_hosts _ _ I)) as [_ Hc]. destruct (Hc _ H) as [Hc' _]. eauto.
 Qed.
 
 Lemma fresh_unrooted x s : InvX x s -> ~ rooted s (st_next s).
@@ -507,6 +785,21 @@ Proof.
   intros I Hr. destruct (rooted_live _ _ _ I Hr) as [c Hc].
   pose proof (live_lt _ _ _ (inv_heap _ _ I) Hc). lia.
 Qed.
+
+(* a host_query state is not rooted (rooted objects are queries, connections, opaque) *)
+Lemma host_unrooted x s o h : InvX x s -> cell_of s o = Some (CHost h) -> ~ rooted s o.
+Proof.
+  intros I Hc [H|[H|[H|H]]].
+  - destruct (inv_query _ _ I _ H) as [q Hq]. congruence.
+  - destruct (inv_conns _ _ I) as [_ Hcc]. destruct (Hcc _ H) as [c [Hc' _]]. congruence.
+  - destruct (inv_chain _ _ I) as [_ Hcc]. rewrite (Hcc _ H) in Hc. discriminate.
+  - destruct (hi_objs _ (inv_hosts _ _ I)) as [_ Hcc]. destruct (Hcc _ H) as [Hc' _]. congruence.
+Qed.
+
+Lemma rooted_same s s' x :
+  linked s' = linked s -> st_conns s' = st_conns s -> chain s' = chain s -> hobjs s' = hobjs s ->
+  (rooted s' x <-> rooted s x).
+Proof. intros E1 E2 E3 E4. unfold rooted. rewrite E1, E2, E3, E4. tauto. Qed.
 
 (* a cell update at an object that is neither a linked query nor changes kinds relevant to the
    invariant: used for opaque objects and unrooted queries *)
@@ -517,24 +810,23 @@ Proof.
 Qed.
 
 (* G1: the cells changed only at unrooted objects that are not connections *)
-Lemma inv_cells_irrelevant x s s' :
+Lemma inv_cells_irrelevant_gen x s s' :
   InvX x s -> heap_ok s' ->
   st_lists s' = st_lists s -> st_byqid s' = st_byqid s -> st_bytmo s' = st_bytmo s -> st_conns s' = st_conns s ->
-  st_scripts s' = st_scripts s ->
-  (forall o, rooted s o -> cell_of s' o = cell_of s o) ->
+  (forall o, In o (linked s) \/ In o (st_conns s) \/ In o (chain s) -> cell_of s' o = cell_of s o) ->
   (forall o c, cell_of s' o = Some (CConn c) <-> cell_of s o = Some (CConn c)) ->
-  (forall o h, cell_of s' o <> Some (CHost h)) ->
+  HostInv s' ->
   InvX x s' /\ chain s' = chain s /\ linked s' = linked s.
 Proof.
-  intros I Hh El Eq Et Ec Es Hr Hc Hnh.
+  intros I Hh El Eq Et Ec Hr Hc HI'.
   assert (Ell : linked s' = linked s) by (unfold linked; rewrite El; reflexivity).
   assert (Ech : chain s' = chain s).
-  { apply qchain_upd; auto. intros qo Hq. apply Hr. left. exact Hq. }
-  split; [|split; auto].
+  { apply qchain_upd; [|exact Ell]. intros qo Hq. apply Hr. left. exact Hq. }
+  split; [|split]; auto.
   constructor; auto.
   - rewrite Ell. exact (inv_nodup _ _ I).
-  - intros qo. rewrite Ell. intros Hq. destruct (inv_query _ _ I _ Hq) as [q [H1 H2]].
-    exists q. rewrite Hr; auto. left; auto.
+  - intros qo. rewrite Ell. intros Hq. destruct (inv_query _ _ I _ Hq) as [q H1].
+    exists q. rewrite Hr; auto.
   - intros qid qo. rewrite Eq, Ell. intros H. destruct (inv_byqid _ _ I _ _ H) as [H1 H2]. split; auto.
     intros q. rewrite Hr by (left; auto). auto.
   - intros qo. rewrite Et, Ell. intros H. destruct (inv_bytmo _ _ I _ H) as [H1 [q [co [c [H2 [H3 [H4 H5]]]]]]].
@@ -546,25 +838,59 @@ Proof.
     destruct (H2 _ Hco) as [c [H3 H4]]. exists c. split; auto. apply Hc. exact H3.
   - intros co c H1 H2. rewrite Ec. apply Hc in H1. exact (inv_closed _ _ I _ _ H1 H2).
   - rewrite Ech. destruct (inv_chain _ _ I) as [H1 H2]. split; auto. intros o Ho.
-    rewrite Hr; auto. right; right; auto.
-  - rewrite Es. exact (inv_scripts _ _ I).
+    rewrite Hr; auto.
+Qed.
+
+Lemma inv_cells_irrelevant x s s' :
+  InvX x s -> heap_ok s' -> st_next s <= st_next s' ->
+  st_lists s' = st_lists s -> st_byqid s' = st_byqid s -> st_bytmo s' = st_bytmo s -> st_conns s' = st_conns s ->
+  (forall o, rooted s o -> cell_of s' o = cell_of s o) ->
+  (forall o c, cell_of s' o = Some (CConn c) <-> cell_of s o = Some (CConn c)) ->
+  (forall o, shared_at s' o = shared_at s o) ->
+  InvX x s' /\ chain s' = chain s /\ linked s' = linked s /\ hobjs s' = hobjs s.
+Proof.
+  intros I Hh Hn El Eq Et Ec Hr Hc Hsh.
+  assert (Ell : linked s' = linked s) by (unfold linked; rewrite El; reflexivity).
+  assert (Ech : chain s' = chain s).
+  { apply qchain_upd; auto. intros qo Hq. apply Hr. left. exact Hq. }
+  assert (Eho : hobjs s' = hobjs s) by (apply hobjs_same; auto; exact (inv_heap _ _ I)).
+  destruct (inv_cells_irrelevant_gen x s s') as [I' _]; auto.
+  - intros o [H|[H|H]]; apply Hr; [left|right; left|right; right; left]; exact H.
+  - apply (hostinv_same s s'); auto.
+    + exact (inv_hosts _ _ I).
+    + exact (inv_heap _ _ I).
+    + intros qo Hq. apply href_same. apply Hr. left; exact Hq.
+    + intros o Ho. rewrite Hr by (right; right; right; exact Ho).
+      destruct (hi_objs _ (inv_hosts _ _ I)) as [_ H]. apply H; auto.
+    + intros o. rewrite Ech. auto.
 Qed.
 
 (* the corresponding frame: everything outside L keeps its cell, nothing becomes rooted *)
 Lemma frame_cells s s' L :
-  st_lists s' = st_lists s -> st_conns s' = st_conns s -> chain s' = chain s -> st_next s <= st_next s' ->
+  heap_ok s ->
+  st_lists s' = st_lists s -> st_conns s' = st_conns s -> chain s' = chain s -> hobjs s' = hobjs s -> st_next s <= st_next s' ->
   (forall o c, cell_of s o = Some c -> ~ In o L -> cell_of s' o = Some c) ->
   (forall o c, cell_of s o = Some (CConn c) -> cell_of s' o = Some (CConn c)) ->
+  (forall qo, In qo (linked s) -> href s' qo = href s qo) ->
+  (forall o, host_at s' o = host_at s o) ->
   Frame s s' L.
 Proof.
-  intros El Ec Ech Hn Hc Hcc.
-  assert (Hr : forall o, rooted s' o <-> rooted s o).
-  { intros o. unfold rooted, linked. rewrite El, Ec, Ech. tauto. }
+  intros Hh El Ec Ech Eho Hn Hc Hcc Hhr Hha.
+  assert (Ell : linked s' = linked s) by (unfold linked; rewrite El; reflexivity).
+  assert (Hr : forall o, rooted s' o <-> rooted s o) by (intros o; apply rooted_same; auto).
   constructor; auto.
   - intros o c H1 H2 H3. pose proof (Hc _ _ H1 H3) as H4.
     assert (H5 : ~ rooted s' o) by (rewrite Hr; exact H2).
     destruct c; auto. exists c. repeat split; auto. apply incl_refl.
   - intros o cc H1 H2. exists cc. auto.
+  - apply hframe_same; auto.
+Qed.
+
+Lemma host_at_upd s s' o0 :
+  (forall o, o <> o0 -> cell_of s' o = cell_of s o) -> host_at s o0 = None -> host_at s' o0 = None ->
+  forall o, host_at s' o = host_at s o.
+Proof.
+  intros H H1 H2 o. destruct (Nat.eq_dec o o0) as [->|Hne]; [congruence|]. unfold host_at. rewrite H; auto.
 Qed.
 
 (* O1: allocate an opaque object *)
@@ -580,48 +906,59 @@ Proof.
   { intros o c Hc. apply Nat.eqb_neq. pose proof (live_lt _ _ _ (inv_heap _ _ I) Hc). lia. }
   assert (Hsame : forall o c, cell_of s o = Some c -> cell_of s' o = Some c).
   { intros o c Hc. unfold s'. rewrite cell_alloc, (Hfresh _ _ Hc). exact Hc. }
-  destruct (inv_cells_irrelevant x s s') as [I' [Ech Ell]]; auto.
+  assert (Hne : forall o, o <> st_next s -> cell_of s' o = cell_of s o).
+  { intros o Ho. unfold s'. rewrite cell_alloc. apply Nat.eqb_neq in Ho. rewrite Ho. reflexivity. }
+  assert (Hha : forall o, host_at s' o = host_at s o).
+  { apply (host_at_upd s s' (st_next s)); auto.
+    - unfold host_at. destruct (cell_of s (st_next s)) as [c|] eqn:E; auto.
+      pose proof (Hfresh _ _ E) as E'. rewrite Nat.eqb_refl in E'. discriminate.
+    - unfold host_at, s'. rewrite cell_alloc, Nat.eqb_refl. reflexivity. }
+  destruct (inv_cells_irrelevant x s s') as [I' [Ech [Ell Eho]]]; auto.
   - apply heap_alloc. exact (inv_heap _ _ I).
+  - simpl. lia.
   - intros o Hr. destruct (rooted_live _ _ _ I Hr) as [c Hc]. rewrite Hc. apply Hsame. exact Hc.
   - intros o c. unfold s'. rewrite cell_alloc. destruct (Nat.eqb o (st_next s)) eqn:E.
     + split; [discriminate|]. intros Hc. rewrite (Hfresh _ _ Hc) in E. discriminate.
     + tauto.
-  - intros o h. unfold s'. rewrite cell_alloc. destruct (Nat.eqb o (st_next s)); [discriminate|].
-    exact (inv_nohost_cells _ _ I o h).
+  - apply shared_of_host_at. exact Hha.
   - split; [exact I'|]. split.
-    + apply frame_cells; auto. simpl. lia.
+    + apply frame_cells; auto. { exact (inv_heap _ _ I). } { simpl. lia. }
+      intros qo Hq. apply href_same. destruct (inv_query _ _ I _ Hq) as [q Hq']. rewrite Hq'. apply Hsame. exact Hq'.
     + split. { unfold s'. rewrite cell_alloc, Nat.eqb_refl. reflexivity. }
-      split. { intros Hr. apply (fresh_unrooted _ _ I).
-               unfold rooted in *. rewrite Ell, Ech in Hr. exact Hr. }
-      split; auto. split; auto.
-      intros o Ho. unfold s'. rewrite cell_alloc. apply Nat.eqb_neq in Ho. rewrite Ho. reflexivity.
+      split. { intros Hr. apply (fresh_unrooted _ _ I). apply (rooted_same s s'); auto. }
+      split; auto.
 Qed.
 
-(* O7/O8: release a live, unrooted object that is not a connection (an owned opaque object, a
-   detached query) *)
+(* O7/O8: release a live, unrooted object that is neither a connection nor a host_query state
+   (an owned opaque object, a detached query) *)
 Lemma free_unrooted_ok x s o c0 :
-  InvX x s -> cell_of s o = Some c0 -> (forall cc, c0 <> CConn cc) -> ~ rooted s o ->
+  InvX x s -> cell_of s o = Some c0 -> (forall cc, c0 <> CConn cc) -> (forall h, c0 <> CHost h) -> ~ rooted s o ->
   let s' := free_st o s in
   InvX x s' /\ Frame s s' [o] /\ chain s' = chain s /\ linked s' = linked s
   /\ (forall o', o' <> o -> cell_of s' o' = cell_of s o').
 Proof.
-  intros I Hc Hnc Hr s'.
+  intros I Hc Hnc Hnh Hr s'.
   assert (Hsame : forall o', o' <> o -> cell_of s' o' = cell_of s o').
   { intros o' Hne. unfold s'. rewrite cell_free. apply Nat.eqb_neq in Hne. rewrite Hne. reflexivity. }
-  destruct (inv_cells_irrelevant x s s') as [I' [Ech Ell]]; auto.
+  assert (Hha : forall o', host_at s' o' = host_at s o').
+  { apply (host_at_upd s s' o); auto.
+    - unfold host_at. rewrite Hc. destruct c0; auto. exfalso. eapply Hnh; eauto.
+    - unfold host_at, s'. rewrite cell_free, Nat.eqb_refl. reflexivity. }
+  destruct (inv_cells_irrelevant x s s') as [I' [Ech [Ell Eho]]]; auto.
   - eapply heap_free; eauto. exact (inv_heap _ _ I).
   - intros o' Hr'. apply Hsame. intros ->. contradiction.
   - intros o' c. unfold s'. rewrite cell_free. destruct (Nat.eqb o' o) eqn:E.
     + apply Nat.eqb_eq in E. subst. rewrite Hc. split; [discriminate|].
       intros H. inversion H. exfalso. eapply Hnc; eauto.
     + tauto.
-  - intros o' h. unfold s'. rewrite cell_free. destruct (Nat.eqb o' o); [discriminate|].
-    exact (inv_nohost_cells _ _ I o' h).
+  - apply shared_of_host_at. exact Hha.
   - split; [exact I'|]. split; [|split; [exact Ech|split; [exact Ell|exact Hsame]]].
     apply frame_cells; auto.
+    + exact (inv_heap _ _ I).
     + intros o' c Hc' Hn. rewrite Hsame; auto. intros ->. apply Hn. left; auto.
     + intros o' c Hc'. rewrite Hsame; auto. intros ->. rewrite Hc in Hc'. inversion Hc'.
       eapply Hnc; eauto.
+    + intros qo Hq. apply href_same. apply Hsame. intros ->. apply Hr. left. exact Hq.
 Qed.
 
 (* O9: update fields of a live query that no index depends on (error status, try count,
@@ -643,6 +980,14 @@ Proof.
   { apply chain_same; auto. intros o Ho. unfold qchain. destruct (Nat.eq_dec o qo) as [->|Hne].
     - rewrite Hqo, Hc, Ecb. reflexivity.
     - rewrite Hsame; auto. }
+  assert (Hhr : forall o, href s' o = href s o).
+  { intros o. unfold href. destruct (Nat.eq_dec o qo) as [->|Hne].
+    - rewrite Hqo, Hc, Ecb. reflexivity.
+    - rewrite Hsame; auto. }
+  assert (Hha : forall o, host_at s' o = host_at s o).
+  { apply (host_at_upd s s' qo); auto; unfold host_at; [rewrite Hc|rewrite Hqo]; reflexivity. }
+  assert (Eho : hobjs s' = hobjs s).
+  { apply hobjs_same; [exact (inv_heap _ _ I)|simpl; lia|apply shared_of_host_at; exact Hha]. }
   assert (Hq : forall o q0, cell_of s o = Some (CQuery q0) ->
                 exists q1, cell_of s' o = Some (CQuery q1) /\ q_cb q1 = q_cb q0 /\ q_qid q1 = q_qid q0 /\ q_conn q1 = q_conn q0).
   { intros o q0 H. destruct (Nat.eq_dec o qo) as [->|Hne].
@@ -656,10 +1001,10 @@ Proof.
   - constructor.
     + eapply heap_store; eauto. exact (inv_heap _ _ I).
     + rewrite Ell. exact (inv_nodup _ _ I).
-    + intros o. rewrite Ell. intros Ho. destruct (inv_query _ _ I _ Ho) as [q0 [H1 H2]].
-      destruct (Hq _ _ H1) as [q1 [H3 [H4 _]]]. exists q1. split; auto. rewrite H4. exact H2.
+    + intros o. rewrite Ell. intros Ho. destruct (inv_query _ _ I _ Ho) as [q0 H1].
+      destruct (Hq _ _ H1) as [q1 [H3 _]]. exists q1. exact H3.
     + intros qid o H. destruct (inv_byqid _ _ I _ _ H) as [H1 H2]. split; auto.
-      intros q1 H3. destruct (inv_query _ _ I _ H1) as [q0 [H4 _]].
+      intros q1 H3. destruct (inv_query _ _ I _ H1) as [q0 H4].
       destruct (Hq _ _ H4) as [q2 [H5 [_ [H6 _]]]]. rewrite H5 in H3. inversion H3; subst.
       rewrite H6. apply H2. exact H4.
     + intros o H. destruct (inv_bytmo _ _ I _ H) as [H1 [q0 [co [c [H2 [H3 [H4 H5]]]]]]].
@@ -672,11 +1017,15 @@ Proof.
     + intros co c H1 H2. apply Hconn in H1. exact (inv_closed _ _ I _ _ H1 H2).
     + rewrite Ech. destruct (inv_chain _ _ I) as [H1 H2]. split; auto. intros o Ho.
       rewrite Hsame. { auto. } intros ->. rewrite (H2 _ Ho) in Hc. discriminate.
-    + intros o h. destruct (Nat.eq_dec o qo) as [->|Hne].
-      * rewrite Hqo. discriminate.
-      * rewrite Hsame; auto. exact (inv_nohost_cells _ _ I o h).
-    + exact (inv_scripts _ _ I).
+    + apply (hostinv_same s s'); auto.
+      * exact (inv_hosts _ _ I).
+      * exact (inv_heap _ _ I).
+      * apply shared_of_host_at. exact Hha.
+      * intros o Ho. destruct (hi_objs _ (inv_hosts _ _ I)) as [_ H]. destruct (H _ Ho) as [H1 _].
+        rewrite Hsame; auto. intros ->. congruence.
+      * intros o. rewrite Ech. auto.
   - apply frame_cells; auto.
+    + exact (inv_heap _ _ I).
     + intros o c Hc' Hn. rewrite Hsame; auto. intros ->. apply Hn. left; auto.
     + intros o c Hc'. apply Hconn. exact Hc'.
 Qed.
@@ -713,6 +1062,51 @@ Lemma strip_notin qo c : (forall cc, c = CConn cc -> ~ In qo (c_queries cc)) -> 
 Proof.
   destruct c as [q|cc|h|]; simpl; auto. intros H. rewrite remove_nat_notin by (apply H; reflexivity).
   rewrite set_c_queries_id. reflexivity.
+Qed.
+
+(* two heaps that differ at most in the contents of connections and in the index fields of queries *)
+Definition cell_sim (c c' : option cell) : Prop :=
+  match c, c' with
+  | Some (CQuery q), Some (CQuery q') => q_cb q' = q_cb q
+  | Some (CConn _), Some (CConn _) => True
+  | Some (CHost h), Some (CHost h') => h' = h
+  | Some COpaque, Some COpaque => True
+  | None, None => True
+  | None, Some (CConn _) => True       (* allocation of a connection / an opaque object *)
+  | None, Some COpaque => True
+  | Some (CConn _), None => True       (* release of a connection *)
+  | _, _ => False
+  end.
+
+Lemma sim_views s s' : (forall o, cell_sim (cell_of s o) (cell_of s' o)) ->
+  (forall o, host_at s' o = host_at s o) /\ (forall o, href s' o = href s o).
+Proof.
+  intros H. split; intros o; specialize (H o); unfold host_at, href, cell_sim in *;
+    destruct (cell_of s o) as [[q|c|h|]|], (cell_of s' o) as [[q'|c'|h'|]|]; try destruct H; auto; congruence.
+Qed.
+
+Lemma cell_sim_strip qo c : cell_sim c (option_map (strip qo) c).
+Proof. destruct c as [[q|c|h|]|]; simpl; auto. Qed.
+
+(* what the simple state changes preserve about the host_query states *)
+Lemma hosts_sim x s s' :
+  InvX x s -> st_next s <= st_next s' -> linked s' = linked s -> chain s' = chain s ->
+  (forall o, cell_sim (cell_of s o) (cell_of s' o)) ->
+  HostInv s' /\ HFrame (dg None) s s' /\ hobjs s' = hobjs s.
+Proof.
+  intros I Hn El Ech Hs. destruct (sim_views _ _ Hs) as [Hha Hhr].
+  assert (Eho : hobjs s' = hobjs s).
+  { apply hobjs_same; [exact (inv_heap _ _ I)|exact Hn|apply shared_of_host_at; exact Hha]. }
+  split; [|split; [|exact Eho]].
+  - apply (hostinv_same s s'); auto.
+    + exact (inv_hosts _ _ I).
+    + exact (inv_heap _ _ I).
+    + apply shared_of_host_at. exact Hha.
+    + intros o Ho. destruct (hi_objs _ (inv_hosts _ _ I)) as [_ H]. destruct (H _ Ho) as [H1 _].
+      specialize (Hs o). rewrite H1 in Hs. unfold cell_sim in Hs.
+      destruct (cell_of s' o) as [[q|c|h|]|]; try destruct Hs; reflexivity.
+    + intros o. rewrite Ech. auto.
+  - apply hframe_same; auto. exact (inv_heap _ _ I).
 Qed.
 
 (* unlink_conn_node removes qo from the list of the (unique) connection that has it *)
@@ -785,7 +1179,9 @@ Proof.
   rewrite (mbind_run _ _ _ _ _ E2).
   (* s1 satisfies the invariant with qo exempted *)
   assert (I1 : InvX (Some qo) s1).
-  { destruct I. constructor; auto.
+  { destruct (hosts_sim x s s1 I) as [HI1 _]; try reflexivity.
+    { intros o. change (cell_of s1 o) with (cell_of s o). destruct (cell_of s o) as [[q0|c0|h0|]|]; simpl; auto. }
+    destruct I. constructor; auto.
     intros o Ho. unfold s1 in Ho. simpl in Ho. apply in_remove_nat in Ho. destruct Ho as [Ho Hne].
     destruct (inv_bytmo0 _ Ho) as [H1 [q0 [co [c [H2 [H3 [H4 H5]]]]]]].
     split; auto. exists q0, co, c. repeat split; auto.
@@ -828,17 +1224,22 @@ Proof.
         try (intros [c1 [H _]]; discriminate).
       + intros H. inversion H. exists c0. auto.
       + intros [c1 [H1 H2]]. inversion H1; subst. reflexivity. }
+  assert (Hsim : forall o, cell_sim (cell_of s o) (cell_of s3 o)).
+  { intros o. rewrite Hc3. destruct (Nat.eqb o qo) eqn:E.
+    - apply Nat.eqb_eq in E. subst. rewrite Hq. reflexivity.
+    - apply cell_sim_strip. }
+  destruct (hosts_sim x s s3 I) as [HI3 [HF3 Eho3]]; auto.
   exists s3. split; [reflexivity|].
   split; [|split; [|repeat (split; [reflexivity|]); split; [exact Ech|split; [reflexivity|exact Hc3]]]].
   - (* Inv s3 *)
     constructor.
     + eapply heap_store; eauto.
     + rewrite Ell. exact (inv_nodup _ _ I).
-    + intros o. rewrite Ell. intros Ho. destruct (inv_query _ _ I _ Ho) as [q0 [H1 H2]].
-      rewrite (Hquery _ _ H1). eexists. split; [reflexivity|]. destruct (Nat.eqb o qo); exact H2.
+    + intros o. rewrite Ell. intros Ho. destruct (inv_query _ _ I _ Ho) as [q0 H1].
+      rewrite (Hquery _ _ H1). eexists. reflexivity.
     + intros qid o H. change (st_byqid s3) with (st_byqid s) in H.
       destruct (inv_byqid _ _ I _ _ H) as [H1 H2]. split; auto.
-      intros q1 H3. destruct (inv_query _ _ I _ H1) as [q0 [H4 _]]. rewrite (Hquery _ _ H4) in H3.
+      intros q1 H3. destruct (inv_query _ _ I _ H1) as [q0 H4]. rewrite (Hquery _ _ H4) in H3.
       inversion H3; subst. rewrite <- (H2 _ H4). destruct (Nat.eqb o qo); reflexivity.
     + intros o Ho. change (st_bytmo s3) with (remove_nat qo (st_bytmo s)) in Ho.
       apply in_remove_nat in Ho. destruct Ho as [Ho Hne].
@@ -863,14 +1264,10 @@ Proof.
       rewrite Hc3. destruct (Nat.eqb o qo) eqn:E.
       * apply Nat.eqb_eq in E. subst. rewrite (H2 _ Ho) in Hq. discriminate.
       * rewrite (H2 _ Ho). reflexivity.
-    + intros o h. rewrite Hc3. destruct (Nat.eqb o qo); [discriminate|].
-      pose proof (inv_nohost_cells _ _ I o) as Hn.
-      destruct (cell_of s o) as [[q0|c0|h0|]|]; simpl; try discriminate. intros _.
-      apply (Hn h0). reflexivity.
-    + exact (inv_scripts _ _ I).
+    + exact HI3.
   - (* Frame *)
     assert (Hr : forall o, rooted s3 o <-> rooted s o).
-    { intros o. unfold rooted. rewrite Ell, Ech. tauto. }
+    { intros o. apply rooted_same; auto. }
     constructor.
     + intros o c H1 H2 _. assert (Hne : Nat.eqb o qo = false).
       { apply Nat.eqb_neq. intros ->. apply H2. left. exact Hl. }
@@ -879,11 +1276,12 @@ Proof.
       * split; auto. rewrite Hc3, Hne, H1. reflexivity.
       * exists (set_c_queries (remove_nat qo (c_queries c0)) c0). rewrite Hc3, Hne, H1. simpl.
         repeat split; auto. intros y Hy. apply in_remove_nat in Hy. tauto.
-      * split; auto. rewrite Hc3, Hne, H1. reflexivity.
+      * intros _. split; auto. rewrite Hc3, Hne, H1. reflexivity.
       * split; auto. rewrite Hc3, Hne, H1. reflexivity.
     + intros o cc H1 H2. exists (set_c_queries (remove_nat qo (c_queries cc)) cc).
       split; [apply Hconn; eauto|auto].
     + simpl. lia.
+    + exact HF3.
 Qed.
 
 
@@ -918,11 +1316,67 @@ Proof.
   - exact H4.
 Qed.
 
-(* O6: ares_detach_query *)
+(* O6: ares_detach_query.  The query leaves every index; its closure is now in the hands of
+   the caller.  If the closure ends in a host_query, that host_query is still waiting for the
+   answer this closure will deliver: the next callee is handed it (FrameG (kbot ..)). *)
+Record FrameD (go : option obj) (s s' : state) : Prop := {
+  fd_cell : forall x c, cell_of s x = Some c -> ~ rooted s x ->
+              match c with
+              | CConn cc => exists cc', cell_of s' x = Some (CConn cc') /\ ~ rooted s' x
+                                        /\ c_reading cc' = c_reading cc /\ c_closed cc' = c_closed cc
+                                        /\ c_sock cc' = c_sock cc /\ incl (c_queries cc') (c_queries cc)
+              | CHost h => h_remaining h = 0 -> cell_of s' x = Some c /\ ~ rooted s' x
+              | _ => cell_of s' x = Some c /\ ~ rooted s' x
+              end;
+  fd_reading : forall x cc, cell_of s x = Some (CConn cc) -> c_reading cc = true ->
+              exists cc', cell_of s' x = Some (CConn cc') /\ c_reading cc' = true /\ c_sock cc' = c_sock cc;
+  fd_next : st_next s' = st_next s;
+  fd_host : forall o, host_at s' o = host_at s o;
+  fd_refs : forall o, nrefs s' o + dg go o = nrefs s o;
+  fd_lt : forall o h, shared_at s o = Some h -> o < st_next s;
+  fd_given : GivenOk s' go
+}.
+
+Lemma frame_detach_trans go s s1 s2 L : FrameD go s s1 -> FrameG (dg go) s1 s2 L -> Frame s s2 L.
+Proof.
+  intros D F. constructor.
+  - intros x c Hc Hr Hn. pose proof (fd_cell _ _ _ D _ _ Hc Hr) as G1.
+    destruct c as [q|cc|h|].
+    + destruct G1 as [G1 G1']. exact (fr_cell _ _ _ _ F _ _ G1 G1' Hn).
+    + destruct G1 as [cc' [G1 [G1' [Ea [Eb [Ec Ed]]]]]].
+      pose proof (fr_cell _ _ _ _ F _ _ G1 G1' Hn) as G2. simpl in G2.
+      destruct G2 as [cc'' [G2 [G2' [Ea' [Eb' [Ec' Ed']]]]]].
+      exists cc''. repeat split; auto; try congruence. eapply incl_tran; eauto.
+    + intros Hz. destruct (G1 Hz) as [G1a G1']. exact (fr_cell _ _ _ _ F _ _ G1a G1' Hn Hz).
+    + destruct G1 as [G1 G1']. exact (fr_cell _ _ _ _ F _ _ G1 G1' Hn).
+  - intros x cc Hc Hr. destruct (fd_reading _ _ _ D _ _ Hc Hr) as [cc' [G1 [G2 G3]]].
+    destruct (fr_reading _ _ _ _ F _ _ G1 G2) as [cc'' [G4 [G5 G6]]]. exists cc''. repeat split; auto. congruence.
+  - pose proof (fd_next _ _ _ D). pose proof (fr_next _ _ _ _ F). lia.
+  - pose proof (fr_hosts _ _ _ _ F) as HF. pose proof (fd_refs _ _ _ D) as Er.
+    assert (Hsh : forall o, shared_at s1 o = shared_at s o) by (apply shared_of_host_at; exact (fd_host _ _ _ D)).
+    constructor.
+    + intros o h Hs Hd. rewrite <- Hsh in Hs. simpl in Hd. specialize (Er o).
+      destruct (hf_host _ _ _ HF _ _ Hs ltac:(lia)) as [A1 A2]. split.
+      * intros Hl. apply A1. simpl in Hl. lia.
+      * intros h' Hc'. destruct (A2 _ Hc') as [B1 [B2 B3]]. repeat split; auto. simpl. lia.
+    + intros o h' Ho Hc'. apply (hf_new _ _ _ HF); auto. rewrite (fd_next _ _ _ D). exact Ho.
+    + intros o h' Ho Hc'. destruct (hf_old _ _ _ HF o h') as [h1 Hc1]; auto.
+      { rewrite (fd_next _ _ _ D). exact Ho. }
+      apply host_at_some in Hc1. rewrite (fd_host _ _ _ D) in Hc1. apply host_at_some in Hc1. eauto.
+    + exact (fd_lt _ _ _ D).
+Qed.
+
+Lemma filter_remove_len (P : nat -> bool) a l :
+  NoDup l -> In a l -> length (filter P l) = (if P a then 1 else 0) + length (filter P (remove_nat a l)).
+Proof.
+  intros Hn Hin. destruct (remove_nat_split _ _ Hn Hin) as [l1 [l2 [-> E]]]. rewrite E.
+  rewrite !filter_app, !app_length. simpl. destruct (P a); simpl; lia.
+Qed.
+
 Lemma detach_query_ok x s qo q :
   InvX x s -> (x = None \/ x = Some qo) -> In qo (linked s) -> cell_of s qo = Some (CQuery q) ->
   exists s', detach_query qo s = Ok (tt, s')
-    /\ Inv s' /\ Frame s s' []
+    /\ Inv s' /\ FrameD (kbot (q_cb q)) s s'
     /\ st_conns s' = st_conns s
     /\ st_tape s' = st_tape s /\ st_trace s' = st_trace s /\ st_scripts s' = st_scripts s
     /\ st_destroying s' = st_destroying s
@@ -955,11 +1409,50 @@ Proof.
   { unfold chain. rewrite Ell. apply flat_map_ext. intros o. unfold qchain. rewrite Hcell. reflexivity. }
   assert (Hqc : qchain s1 qo = cobjs (q_cb q)).
   { unfold qchain. rewrite Hq1. reflexivity. }
-  assert (Hnr : ~ rooted s2 qo).
-  { intros [H|[H|H]].
+  (* host_query states: same cells, one reference less for the one this query pointed at *)
+  pose proof (inv_hosts _ _ I1) as HI1.
+  assert (Hsh2 : forall o, shared_at s2 o = shared_at s1 o) by reflexivity.
+  assert (Eho2 : hobjs s2 = hobjs s1) by reflexivity.
+  assert (Hhr2 : forall o, href s2 o = href s1 o) by reflexivity.
+  assert (Hhrq : href s1 qo = kbot (q_cb q)) by (unfold href; rewrite Hq1; reflexivity).
+  assert (Hnr : forall o, nrefs s2 o + dg (kbot (q_cb q)) o = nrefs s1 o).
+  { intros o.
+    set (P := fun qo0 => match href s1 qo0 with Some o' => Nat.eqb o o' | None => false end).
+    assert (A : nrefs s1 o = (if P qo then 1 else 0) + length (filter P (remove_nat qo (linked s1)))).
+    { unfold nrefs, refs_to. apply filter_remove_len; auto. exact (inv_nodup _ _ I1). }
+    assert (B : nrefs s2 o = length (filter P (remove_nat qo (linked s1)))).
+    { unfold nrefs, refs_to. rewrite Ell. reflexivity. }
+    rewrite A, B. unfold P. rewrite Hhrq. unfold dg.
+    destruct (kbot (q_cb q)) as [o'|]; [destruct (Nat.eqb o o')|]; lia. }
+  assert (HI2 : HostInv s2).
+  { constructor.
+    - intros qo' o. rewrite Ell. intros Hin. apply in_remove_nat in Hin. destruct Hin as [Hin _].
+      rewrite Hhr2, Hsh2. apply (hi_ref _ HI1); auto.
+    - intros o h. rewrite Hsh2. intros Hs. pose proof (hi_cnt _ HI1 _ _ Hs). specialize (Hnr o). lia.
+    - intros o h. rewrite Hsh2. apply (hi_nohost _ HI1).
+    - rewrite Eho2. destruct (hi_objs _ HI1) as [H1 H2]. split; auto. intros y Hy. destruct (H2 _ Hy) as [H3 H4].
+      split; [rewrite Hcell; exact H3|]. rewrite Ech2. intros H. apply H4. apply G2. exact H. }
+  assert (Hnr2 : ~ rooted s2 qo).
+  { intros [H|[H|[H|H]]].
     - rewrite Ell in H. apply in_remove_nat in H. tauto.
     - destruct (inv_conns _ _ I1) as [_ Hcc]. destruct (Hcc _ H) as [c [Hc' _]]. rewrite Hq1 in Hc'. discriminate.
-    - rewrite Ech2 in H. apply G2 in H. rewrite (Hco _ H) in Hq1. discriminate. }
+    - rewrite Ech2 in H. apply G2 in H. rewrite (Hco _ H) in Hq1. discriminate.
+    - rewrite Eho2 in H. destruct (hi_objs _ HI1) as [_ H2]. destruct (H2 _ H) as [H3 _]. rewrite Hq1 in H3. discriminate. }
+  assert (Hrt : forall o, rooted s2 o -> rooted s1 o).
+  { intros o [H|[H|[H|H]]].
+    - left. rewrite Ell in H. apply in_remove_nat in H. tauto.
+    - right; left. exact H.
+    - right; right; left. rewrite Ech2 in H. apply G2. exact H.
+    - right; right; right. rewrite Eho2 in H. exact H. }
+  assert (Hrt1 : forall o, rooted s1 o <-> rooted s o).
+  { intros o. apply rooted_same; auto.
+    - unfold linked. rewrite El. reflexivity.
+    - destruct (hosts_sim x s s1 I) as [_ [_ E]]; auto.
+      + rewrite En. lia.
+      + unfold linked. rewrite El. reflexivity.
+      + intros o'. rewrite Hc1. destruct (Nat.eqb o' qo) eqn:E.
+        * apply Nat.eqb_eq in E. subst. rewrite Hq. reflexivity.
+        * apply cell_sim_strip. }
   split; [|split; [|repeat (split; [first [reflexivity | assumption | (simpl; congruence)]|])]].
   - (* Inv s2 *)
     constructor.
@@ -982,43 +1475,60 @@ Proof.
     + exact (inv_conns _ _ I1).
     + exact (inv_closed _ _ I1).
     + rewrite Ech2. split; auto. intros o Ho. apply Hco. apply G2. exact Ho.
-    + exact (inv_nohost_cells _ _ I1).
-    + exact (inv_scripts _ _ I1).
-  - (* Frame s s2 [] *)
-    assert (F2 : Frame s1 s2 []).
-    { constructor.
-      - intros o c H1 H2 _.
-        assert (H3 : ~ rooted s2 o).
-        { intros [H|[H|H]]; apply H2.
-          - left. rewrite Ell in H. apply in_remove_nat in H. tauto.
-          - right; left. exact H.
-          - right; right. rewrite Ech2 in H. apply G2. exact H. }
-        destruct c; auto. exists c. repeat split; auto. apply incl_refl.
-      - intros o cc H1 H2. exists cc. auto.
-      - simpl. lia. }
-    exact (frame_trans _ _ _ _ _ F1 F2).
+    + exact HI2.
+  - (* FrameD *)
+    constructor.
+    + intros o c H1 H2.
+      assert (H2' : ~ rooted s1 o) by (rewrite Hrt1; exact H2).
+      pose proof (fr_cell _ _ _ _ F1 _ _ H1 H2 (fun H => H)) as G.
+      assert (H3 : forall o', ~ rooted s1 o' -> ~ rooted s2 o') by (intros o' Hn Hr; apply Hn; apply Hrt; exact Hr).
+      destruct c as [q0|c0|h0|].
+      * destruct G as [Ga Gb]. split; [rewrite Hcell; exact Ga|auto].
+      * destruct G as [cc' [Ga [Gb Gc]]]. exists cc'. split; [rewrite Hcell; exact Ga|]. split; auto.
+      * intros Hz. destruct (G Hz) as [Ga Gb]. split; [rewrite Hcell; exact Ga|auto].
+      * destruct G as [Ga Gb]. split; [rewrite Hcell; exact Ga|auto].
+    + intros o cc H1 H2. destruct (fr_reading _ _ _ _ F1 _ _ H1 H2) as [cc' G]. exists cc'. rewrite Hcell. exact G.
+    + simpl. exact En.
+    + intros o. change (host_at s2 o) with (host_at s1 o).
+      destruct (sim_views s s1) as [Hv _]; auto.
+      intros o'. rewrite Hc1. destruct (Nat.eqb o' qo) eqn:E.
+      * apply Nat.eqb_eq in E. subst. rewrite Hq. reflexivity.
+      * apply cell_sim_strip.
+    + intros o. rewrite Hnr. apply nrefs_same.
+      * unfold linked. rewrite El. reflexivity.
+      * intros qo' _. destruct (sim_views s s1) as [_ Hv]; auto.
+        intros o'. rewrite Hc1. destruct (Nat.eqb o' qo) eqn:E.
+        -- apply Nat.eqb_eq in E. subst. rewrite Hq. reflexivity.
+        -- apply cell_sim_strip.
+    + intros o h Hs. eapply shared_lt; eauto. exact (inv_heap _ _ I).
+    + unfold GivenOk. destruct (kbot (q_cb q)) as [o|] eqn:Ek; auto.
+      destruct (hi_ref _ HI1 qo o Hl1 Hhrq) as [h Hs].
+      exists h. split; [rewrite Hsh2; exact Hs|].
+      pose proof (hi_cnt _ HI1 _ _ Hs). specialize (Hnr o). simpl in Hnr. rewrite Nat.eqb_refl in Hnr. lia.
   - (* Own s2 (cobjs (q_cb q)) and the cells *)
     split; [|intros o; rewrite Hcell; apply Hc1].
     split.
     + rewrite <- Hqc. exact G4.
-    + intros o Ho. rewrite <- Hqc in Ho. split.
-      * apply Hco. unfold chain. apply in_flat_map. exists qo. split; auto.
-      * intros [H|[H|H]].
-        -- rewrite Ell in H. apply in_remove_nat in H. destruct H as [H _].
-           destruct (inv_query _ _ I1 _ H) as [q' [Hq' _]].
-           assert (Hop : cell_of s1 o = Some COpaque).
-           { apply Hco. unfold chain. apply in_flat_map. exists qo. split; auto. }
-           rewrite Hop in Hq'. discriminate.
-        -- destruct (inv_conns _ _ I1) as [_ Hcc]. destruct (Hcc _ H) as [c [Hc' _]].
-           assert (Hop : cell_of s1 o = Some COpaque).
-           { apply Hco. unfold chain. apply in_flat_map. exists qo. split; auto. }
-           change (st_conns s2) with (st_conns s1) in H. rewrite Hop in Hc'. discriminate.
-        -- rewrite Ech2 in H. exact (G3 _ Ho H).
+    + intros o Ho. rewrite <- Hqc in Ho.
+      assert (Hop : cell_of s1 o = Some COpaque).
+      { apply Hco. unfold chain. apply in_flat_map. exists qo. split; auto. }
+      split; [exact Hop|].
+      intros [H|[H|[H|H]]].
+      * rewrite Ell in H. apply in_remove_nat in H. destruct H as [H _].
+        destruct (inv_query _ _ I1 _ H) as [q' Hq']. rewrite Hop in Hq'. discriminate.
+      * destruct (inv_conns _ _ I1) as [_ Hcc]. destruct (Hcc _ H) as [c [Hc' _]].
+        change (st_conns s2) with (st_conns s1) in H. rewrite Hop in Hc'. discriminate.
+      * rewrite Ech2 in H. exact (G3 _ Ho H).
+      * rewrite Eho2 in H. destruct (hi_objs _ HI1) as [_ H2]. destruct (H2 _ H) as [_ H4]. apply H4.
+        unfold chain. apply in_flat_map. exists qo. split; auto.
 Qed.
 
 (* ---------------------------------------------------------------------------------- *)
 (* O14: changes of st_lists that keep the concatenation (ares_cancel's list swap)       *)
 (* ---------------------------------------------------------------------------------- *)
+Lemma cell_sim_refl c : cell_sim c c.
+Proof. destruct c as [[q|c|h|]|]; simpl; auto. Qed.
+
 Lemma lists_same_linked x s ls :
   concat ls = linked s -> InvX x s ->
   InvX x (set_lists ls s) /\ Frame s (set_lists ls s) [] /\ chain (set_lists ls s) = chain s.
@@ -1028,8 +1538,10 @@ Proof.
   assert (Hc : forall o, cell_of (set_lists ls s) o = cell_of s o) by reflexivity.
   assert (Ech : chain (set_lists ls s) = chain s).
   { apply chain_same; auto. }
+  destruct (hosts_sim x s (set_lists ls s) I) as [HI' [HF' Eho]]; auto.
+  { intros o. rewrite Hc. apply cell_sim_refl. }
   assert (Hr : forall o, rooted (set_lists ls s) o <-> rooted s o).
-  { intros o. unfold rooted. rewrite Ell, Ech. simpl. tauto. }
+  { intros o. apply rooted_same; auto. }
   split; [|split; auto].
   - destruct I. constructor; try rewrite Ell; try rewrite Ech; auto.
   - constructor.
@@ -1037,6 +1549,7 @@ Proof.
       destruct c; auto. exists c. repeat split; auto. apply incl_refl.
     + intros o cc H1 H2. exists cc. auto.
     + simpl. lia.
+    + exact HF'.
 Qed.
 
 (* ---------------------------------------------------------------------------------- *)
@@ -1062,7 +1575,7 @@ Proof.
   { intros o q H. rewrite Hsame; auto. intros ->. rewrite Hc in H. discriminate. }
   assert (Ech : chain s' = chain s).
   { apply chain_same; auto. intros o Ho. unfold qchain.
-    destruct (inv_query _ _ I _ Ho) as [q [H1 _]]. rewrite (Hqs _ _ H1), H1. reflexivity. }
+    destruct (inv_query _ _ I _ Ho) as [q H1]. rewrite (Hqs _ _ H1), H1. reflexivity. }
   assert (Hconn : forall o c1, cell_of s' o = Some (CConn c1) ->
             exists c0, cell_of s o = Some (CConn c0) /\ c_queries c1 = c_queries c0
                        /\ ((o = co /\ c1 = c') \/ (o <> co /\ c1 = c0))).
@@ -1075,13 +1588,15 @@ Proof.
   { intros o c0 H. destruct (Nat.eq_dec o co) as [->|Hne].
     - rewrite Hc in H. inversion H; subst. exists c'. auto.
     - exists c0. rewrite Hsame; auto. }
+  destruct (hosts_sim x s s' I) as [HI' [HF' Eho]]; auto.
+  { intros o. destruct (Nat.eq_dec o co) as [->|Hne]; [rewrite Hc, Hco; reflexivity|rewrite Hsame; auto; apply cell_sim_refl]. }
   split; [|split; [exact Ech|split; [exact Ell|split; [exact Hsame|exact Hco]]]].
   constructor.
   - eapply heap_store; eauto. exact (inv_heap _ _ I).
   - rewrite Ell. exact (inv_nodup _ _ I).
-  - intros o. rewrite Ell. intros Ho. destruct (inv_query _ _ I _ Ho) as [q [H1 H2]]. exists q. split; auto.
+  - intros o. rewrite Ell. intros Ho. destruct (inv_query _ _ I _ Ho) as [q H1]. exists q. auto.
   - intros qid o H. destruct (inv_byqid _ _ I _ _ H) as [H1 H2]. split; auto. intros q Hq. apply H2.
-    destruct (inv_query _ _ I _ H1) as [q0 [H3 _]]. rewrite (Hqs _ _ H3) in Hq. inversion Hq; subst. exact H3.
+    destruct (inv_query _ _ I _ H1) as [q0 H3]. rewrite (Hqs _ _ H3) in Hq. inversion Hq; subst. exact H3.
   - intros o H. destruct (inv_bytmo _ _ I _ H) as [H1 [q [co1 [c1 [H2 [H3 [H4 H5]]]]]]]. split; auto.
     destruct (Hconn' _ _ H4) as [c2 [H6 [H7 _]]]. exists q, co1, c2. repeat split; auto.
     rewrite H7. exact H5.
@@ -1096,10 +1611,7 @@ Proof.
     + exact (inv_closed _ _ I _ _ H3 H2).
   - rewrite Ech. destruct (inv_chain _ _ I) as [H1 H2]. split; auto. intros o Ho. rewrite Hsame; auto.
     intros ->. rewrite (H2 _ Ho) in Hc. discriminate.
-  - intros o h. destruct (Nat.eq_dec o co) as [->|Hne].
-    + rewrite Hco. discriminate.
-    + rewrite Hsame; auto. exact (inv_nohost_cells _ _ I o h).
-  - exact (inv_scripts _ _ I).
+  - exact HI'.
 Qed.
 
 (* O3: a new connection (no queries yet), appended to the connection list *)
@@ -1125,18 +1637,23 @@ Proof.
   assert (Ell : linked s' = linked s) by reflexivity.
   assert (Ech : chain s' = chain s).
   { apply chain_same; auto. intros o Ho. unfold qchain.
-    destruct (inv_query _ _ I _ Ho) as [q [H1 _]]. rewrite (Hold _ _ H1), H1. reflexivity. }
+    destruct (inv_query _ _ I _ Ho) as [q H1]. rewrite (Hold _ _ H1), H1. reflexivity. }
   assert (Hnew : forall o c, cell_of s' o = Some c -> (o = co /\ c = CConn c0) \/ cell_of s o = Some c).
   { intros o c H. destruct (Nat.eq_dec o co) as [->|Hne].
     - rewrite Hco in H. inversion H. auto.
     - rewrite Hsame in H; auto. }
   assert (Hnotin : ~ In co (st_conns s)).
   { intros H. destruct (inv_conns _ _ I) as [_ Hc]. destruct (Hc _ H) as [c [Hc' _]]. eapply Hfresh; eauto. }
+  destruct (hosts_sim x s s' I) as [HI' [HF' Eho]]; auto.
+  { simpl. lia. }
+  { intros o. destruct (Nat.eq_dec o co) as [->|Hne].
+    - rewrite Hco. destruct (cell_of s co) as [c1|] eqn:E1; [exfalso; eapply Hfresh; eauto|reflexivity].
+    - rewrite Hsame; auto. apply cell_sim_refl. }
   split; [|split; [|split; [exact Hco|split; [|split; [exact Ech|split; [exact Ell|split; [exact Hsame|split; reflexivity]]]]]]].
   - constructor.
     + apply (heap_alloc (CConn c0)). exact (inv_heap _ _ I).
     + rewrite Ell. exact (inv_nodup _ _ I).
-    + intros o. rewrite Ell. intros Ho. destruct (inv_query _ _ I _ Ho) as [q [H1 H2]]. exists q. split; auto.
+    + intros o. rewrite Ell. intros Ho. destruct (inv_query _ _ I _ Ho) as [q H1]. exists q. auto.
     + intros qid o H. destruct (inv_byqid _ _ I _ _ H) as [H1 H2]. split; auto. intros q Hq.
       destruct (Hnew _ _ Hq) as [[_ Hx]|Hx]; [discriminate|auto].
     + intros o H. destruct (inv_bytmo _ _ I _ H) as [H1 [q [co1 [c1 [H2 [H3 [H4 H5]]]]]]]. split; auto.
@@ -1156,19 +1673,20 @@ Proof.
       * destruct (inv_closed _ _ I _ _ Hx H2) as [H3 H4]. split; auto. simpl. intros Hin.
         apply in_app_or in Hin. destruct Hin as [Hin|[Hin|[]]]; auto. subst. eapply Hfresh; eauto.
     + rewrite Ech. destruct (inv_chain _ _ I) as [H1 H2]. split; auto.
-    + intros o h H. destruct (Hnew _ _ H) as [[_ Hx]|Hx]; [discriminate|]. exact (inv_nohost_cells _ _ I o h Hx).
-    + exact (inv_scripts _ _ I).
+    + exact HI'.
   - constructor.
     + intros o c H1 H2 _.
       assert (H3 : ~ rooted s' o).
-      { intros [H|[H|H]]; apply H2.
+      { intros [H|[H|[H|H]]]; apply H2.
         - left. exact H.
         - simpl in H. apply in_app_or in H. destruct H as [H|[H|[]]]; [right; left; exact H|].
           subst. exfalso. eapply Hfresh; eauto.
-        - right; right. rewrite Ech in H. exact H. }
+        - right; right; left. rewrite Ech in H. exact H.
+        - right; right; right. rewrite Eho in H. exact H. }
       rewrite (Hold _ _ H1). destruct c; auto. exists c. repeat split; auto. apply incl_refl.
     + intros o cc H1 H2. exists cc. rewrite (Hold _ _ H1). auto.
     + simpl. lia.
+    + exact HF'.
   - simpl. apply in_or_app. right. left. reflexivity.
 Qed.
 
@@ -1182,6 +1700,8 @@ Proof.
   assert (Hc : forall o, cell_of s' o = cell_of s o) by reflexivity.
   assert (Ell : linked s' = linked s) by reflexivity.
   assert (Ech : chain s' = chain s) by (apply chain_same; auto).
+  destruct (hosts_sim x s s' I) as [HI' [HF' Eho]]; auto.
+  { intros o. rewrite Hc. apply cell_sim_refl. }
   split; [|split; [|split; [|split; auto]]].
   - destruct I. constructor; auto.
     + destruct inv_conns0 as [H1 H2]. split.
@@ -1192,13 +1712,15 @@ Proof.
   - constructor.
     + intros o c H1 H2 _.
       assert (H3 : ~ rooted s' o).
-      { intros [H|[H|H]]; apply H2.
+      { intros [H|[H|[H|H]]]; apply H2.
         - left; exact H.
         - right; left. simpl in H. apply in_remove_nat in H. tauto.
-        - right; right. rewrite Ech in H. exact H. }
+        - right; right; left. rewrite Ech in H. exact H.
+        - right; right; right. rewrite Eho in H. exact H. }
       destruct c; auto. exists c. repeat split; auto. apply incl_refl.
     + intros o cc H1 H2. exists cc. auto.
     + simpl. lia.
+    + exact HF'.
   - simpl. intros H. apply in_remove_nat in H. tauto.
 Qed.
 
@@ -1222,12 +1744,14 @@ Proof.
   { intros o q H. rewrite Hsame; auto. intros ->. rewrite Hc in H. discriminate. }
   assert (Ech : chain s' = chain s).
   { apply chain_same; auto. intros o Ho. unfold qchain.
-    destruct (inv_query _ _ I _ Ho) as [q [H1 _]]. rewrite (Hqs _ _ H1), H1. reflexivity. }
+    destruct (inv_query _ _ I _ Ho) as [q H1]. rewrite (Hqs _ _ H1), H1. reflexivity. }
+  destruct (hosts_sim None s s' I) as [HI' [HF' Eho]]; auto.
+  { intros o. destruct (Nat.eq_dec o co) as [->|Hne]; [rewrite Hc, Hgone; reflexivity|rewrite Hsame; auto; apply cell_sim_refl]. }
   split; [|split; [exact Ech|split; [exact Ell|exact Hsame]]].
   constructor.
   - eapply heap_free; eauto. exact (inv_heap _ _ I).
   - rewrite Ell. exact (inv_nodup _ _ I).
-  - intros o. rewrite Ell. intros Ho. destruct (inv_query _ _ I _ Ho) as [q [H1 H2]]. exists q. split; auto.
+  - intros o. rewrite Ell. intros Ho. destruct (inv_query _ _ I _ Ho) as [q H1]. exists q. auto.
   - intros qid o H. destruct (inv_byqid _ _ I _ _ H) as [H1 H2]. split; auto. intros q Hq.
     destruct (Hsub _ _ Hq) as [Hq' _]. auto.
   - intros o H. destruct (inv_bytmo _ _ I _ H) as [H1 [q [co1 [c1 [H2 [H3 [H4 H5]]]]]]]. split; auto.
@@ -1242,8 +1766,7 @@ Proof.
   - intros co1 c1 H1 H2. destruct (Hsub _ _ H1) as [H3 _]. exact (inv_closed _ _ I _ _ H3 H2).
   - rewrite Ech. destruct (inv_chain _ _ I) as [H1 H2]. split; auto. intros o Ho. rewrite Hsame; auto.
     intros ->. rewrite (H2 _ Ho) in Hc. discriminate.
-  - intros o h H. destruct (Hsub _ _ H) as [H1 _]. exact (inv_nohost_cells _ _ I o h H1).
-  - exact (inv_scripts _ _ I).
+  - exact HI'.
 Qed.
 
 From Coq Require Import Permutation.
@@ -1273,17 +1796,17 @@ Qed.
 
 (* O2: a new query, linked into all_queries and the id table, not yet on a connection *)
 Lemma new_query_ok s k qid q0 :
-  Inv s -> Own s (cobjs k) -> nohost k -> lookup qid (st_byqid s) = None ->
+  Inv s -> Own s (cobjs k) -> GivenOk s (kbot k) -> lookup qid (st_byqid s) = None ->
   q_cb q0 = k -> q_qid q0 = qid -> q_conn q0 = None ->
   let qo := st_next s in
   let s' := set_byqid ((qid, qo) :: st_byqid s) (set_lists (link_lists qo (st_lists s)) (alloc_st (CQuery q0) s)) in
-  Inv s' /\ Frame s s' (cobjs k) /\ In qo (linked s') /\ cell_of s' qo = Some (CQuery q0)
+  Inv s' /\ FrameG (dg (kbot k)) s s' (cobjs k) /\ In qo (linked s') /\ cell_of s' qo = Some (CQuery q0)
   /\ (forall o, o <> qo -> cell_of s' o = cell_of s o)
   /\ st_conns s' = st_conns s /\ st_bytmo s' = st_bytmo s
   /\ (forall x, In x (linked s') <-> In x (linked s) \/ x = qo)
   /\ (exists l1 l2, linked s = l1 ++ l2 /\ linked s' = l1 ++ qo :: l2).
 Proof.
-  intros I [On Oc] Hnh Hfree Ecb Eqid Econn qo s'.
+  intros I [On Oc] Hgv Hfree Ecb Eqid Econn qo s'.
   assert (Hfresh : forall o c, cell_of s o = Some c -> o <> qo).
   { intros o c Hc. pose proof (live_lt _ _ _ (inv_heap _ _ I) Hc). unfold qo. lia. }
   assert (Hsame : forall o, o <> qo -> cell_of s' o = cell_of s o).
@@ -1304,9 +1827,9 @@ Proof.
   assert (Hin : forall x, In x (linked s') <-> In x (linked s) \/ x = qo).
   { intros x. rewrite Ell, Els, !in_app_iff. simpl. split; intros H; intuition. }
   assert (Hqnl : ~ In qo (linked s)).
-  { intros H. destruct (inv_query _ _ I _ H) as [q [Hq _]]. eapply Hfresh; eauto. }
+  { intros H. destruct (inv_query _ _ I _ H) as [q Hq]. eapply Hfresh; eauto. }
   assert (Hqc_old : forall o, In o (linked s) -> qchain s' o = qchain s o).
-  { intros o Ho. unfold qchain. destruct (inv_query _ _ I _ Ho) as [q [Hq _]]. rewrite (Hold _ _ Hq), Hq. reflexivity. }
+  { intros o Ho. unfold qchain. destruct (inv_query _ _ I _ Ho) as [q Hq]. rewrite (Hold _ _ Hq), Hq. reflexivity. }
   assert (Hqc_new : qchain s' qo = cobjs k).
   { unfold qchain. rewrite Hqo, Ecb. reflexivity. }
   assert (Pch : Permutation (chain s') (cobjs k ++ chain s)).
@@ -1318,6 +1841,45 @@ Proof.
     - apply (Permutation_in _ Pch) in H. apply in_app_or in H. exact H.
     - apply (Permutation_in _ (Permutation_sym Pch)). apply in_or_app. exact H. }
   destruct (inv_chain _ _ I) as [Cn Cc].
+  (* host_query states *)
+  pose proof (inv_hosts _ _ I) as HI. pose proof (inv_heap _ _ I) as Hh.
+  assert (Hha : forall o, host_at s' o = host_at s o).
+  { apply (host_at_upd s s' qo); auto.
+    - unfold host_at. destruct (cell_of s qo) as [c|] eqn:E; auto. exfalso. eapply Hfresh; eauto.
+    - unfold host_at. rewrite Hqo. reflexivity. }
+  assert (Hsh : forall o, shared_at s' o = shared_at s o) by (apply shared_of_host_at; exact Hha).
+  assert (Eho : hobjs s' = hobjs s) by (apply hobjs_same; auto; simpl; lia).
+  assert (Hhr_old : forall o, In o (linked s) -> href s' o = href s o).
+  { intros o Ho. apply href_same. destruct (inv_query _ _ I _ Ho) as [q Hq]. rewrite Hq. apply Hold. exact Hq. }
+  assert (Hhr_new : href s' qo = kbot k) by (unfold href; rewrite Hqo, Ecb; reflexivity).
+  assert (Hnr : forall o, nrefs s' o = nrefs s o + dg (kbot k) o).
+  { intros o. unfold nrefs, refs_to. rewrite Ell, Els. rewrite !filter_app, !app_length. simpl.
+    rewrite Hhr_new.
+    rewrite (filter_ext_in _ (fun qo0 => match href s qo0 with Some o' => Nat.eqb o o' | None => false end) l1).
+    2:{ intros a Ha. rewrite Hhr_old; auto. rewrite Els. apply in_or_app; auto. }
+    rewrite (filter_ext_in _ (fun qo0 => match href s qo0 with Some o' => Nat.eqb o o' | None => false end) l2).
+    2:{ intros a Ha. rewrite Hhr_old; auto. rewrite Els. apply in_or_app; auto. }
+    unfold dg. destruct (kbot k) as [o'|]; [destruct (Nat.eqb o o')|]; simpl; lia. }
+  assert (HI' : HostInv s').
+  { constructor.
+    - intros o ho Ho. apply Hin in Ho. destruct Ho as [Ho| ->].
+      + rewrite (Hhr_old _ Ho), Hsh. apply (hi_ref _ HI); auto.
+      + rewrite Hhr_new. intros Ek. rewrite Ek in Hgv. destruct Hgv as [h [Hs _]]. exists h. rewrite Hsh. exact Hs.
+    - intros o h. rewrite Hsh, Hnr. intros Hs. pose proof (hi_cnt _ HI _ _ Hs).
+      unfold dg. destruct (kbot k) as [o'|] eqn:Ek; [|lia]. destruct (Nat.eqb o o') eqn:E; [|lia].
+      apply Nat.eqb_eq in E. subst o'. destruct Hgv as [h' [Hs' Hlt]]. rewrite Hs in Hs'. inversion Hs'; subst. lia.
+    - intros o h. rewrite Hsh. apply (hi_nohost _ HI).
+    - rewrite Eho. destruct (hi_objs _ HI) as [H1 H2]. split; auto. intros y Hy. destruct (H2 _ Hy) as [H3 H4].
+      split; [apply Hold; exact H3|]. intros Hc. apply Hchin in Hc. destruct Hc as [Hc|Hc]; [|contradiction].
+      destruct (Oc _ Hc) as [_ Hr]. apply Hr. right; right; right. exact Hy. }
+  assert (HF' : HFrame (dg (kbot k)) s s').
+  { constructor.
+    - intros o h Hs Hd. destruct (shared_host _ _ _ Hs) as [Hc Hp]. pose proof (Hold _ _ Hc) as Hc'. split; [eauto|].
+      intros h' Hh'. rewrite Hc' in Hh'. inversion Hh'; subst h'. rewrite Hnr. repeat split; auto. lia.
+    - intros o h' Ho Hc. destruct (Hnew _ _ Hc) as [[_ Hx]|[_ Hx]]; [discriminate|].
+      pose proof (live_lt _ _ _ Hh Hx). lia.
+    - intros o h' _ Hc. destruct (Hnew _ _ Hc) as [[_ Hx]|[_ Hx]]; [discriminate|]. eauto.
+    - intros o h Hs. eapply shared_lt; eauto. }
   split; [|split; [|split; [|split; [exact Hqo|split; [exact Hsame|split; [reflexivity|split; [reflexivity|split; [exact Hin|exists l1, l2; auto]]]]]]]].
   - constructor.
     + apply (heap_alloc (CQuery q0)). exact (inv_heap _ _ I).
@@ -1326,8 +1888,8 @@ Proof.
       * constructor; auto. intros H. apply Hqnl. rewrite Els. apply in_or_app; auto.
       * intros y Hy [<-|Hy']; [|exact (H3 _ Hy Hy')]. apply Hqnl. rewrite Els. apply in_or_app; auto.
     + intros o Ho. apply Hin in Ho. destruct Ho as [Ho| ->].
-      * destruct (inv_query _ _ I _ Ho) as [q [H1 H2]]. exists q. split; auto.
-      * exists q0. split; auto. rewrite Ecb. exact Hnh.
+      * destruct (inv_query _ _ I _ Ho) as [q H1]. exists q. auto.
+      * exists q0. exact Hqo.
     + intros qid' o H. simpl in H. destruct (Nat.eqb qid' qid) eqn:E.
       * inversion H; subst. apply Nat.eqb_eq in E. subst qid'. split; [apply Hin; auto|].
         intros q Hq. rewrite Hqo in Hq. inversion Hq; subst. reflexivity.
@@ -1343,22 +1905,23 @@ Proof.
       exact (inv_closed _ _ I _ _ Hx H2).
     + split.
       * apply (Permutation_NoDup (Permutation_sym Pch)). apply NoDup_app_iff. repeat split; auto.
-        intros o Ho Ho'. destruct (Oc _ Ho) as [_ Hr]. apply Hr. right; right. exact Ho'.
+        intros o Ho Ho'. destruct (Oc _ Ho) as [_ Hr]. apply Hr. right; right; left. exact Ho'.
       * intros o Ho. apply Hchin in Ho. destruct Ho as [Ho|Ho].
         -- destruct (Oc _ Ho) as [Hc _]. auto.
         -- auto.
-    + intros o h H. destruct (Hnew _ _ H) as [[_ Hx]|[_ Hx]]; [discriminate|]. exact (inv_nohost_cells _ _ I o h Hx).
-    + exact (inv_scripts _ _ I).
+    + exact HI'.
   - constructor.
     + intros o c H1 H2 H3.
       assert (H4 : ~ rooted s' o).
-      { intros [H|[H|H]].
+      { intros [H|[H|[H|H]]].
         - apply Hin in H. destruct H as [H| ->]; [apply H2; left; exact H|]. eapply Hfresh; eauto.
         - apply H2. right; left. exact H.
-        - apply Hchin in H. destruct H as [H|H]; [contradiction|]. apply H2. right; right. exact H. }
+        - apply Hchin in H. destruct H as [H|H]; [contradiction|]. apply H2. right; right; left. exact H.
+        - apply H2. right; right; right. rewrite Eho in H. exact H. }
       rewrite (Hold _ _ H1). destruct c; auto. exists c. repeat split; auto. apply incl_refl.
     + intros o cc H1 H2. exists cc. rewrite (Hold _ _ H1). auto.
     + simpl. lia.
+    + exact HF'.
   - apply Hin. auto.
 Qed.
 
@@ -1401,20 +1964,25 @@ Proof.
         * intros [c2 [H1 H2]]. inversion H1; subst. rewrite app_nil_r. reflexivity. }
   assert (Ech : chain s' = chain s).
   { apply chain_same; auto. intros o Ho. unfold qchain.
-    destruct (inv_query _ _ I _ Ho) as [q0 [H1 _]]. rewrite (Hquery _ _ H1), H1.
+    destruct (inv_query _ _ I _ Ho) as [q0 H1]. rewrite (Hquery _ _ H1), H1.
     destruct (Nat.eqb o qo) eqn:E; auto. apply Nat.eqb_eq in E. subst. rewrite Hq in H1. inversion H1; subst.
     rewrite Ecb. reflexivity. }
+  destruct (hosts_sim None s s' I) as [HI' [HF' Eho]]; auto.
+  { intros o. rewrite Hcell. destruct (Nat.eqb o qo) eqn:E.
+    - apply Nat.eqb_eq in E. subst. rewrite Hq. exact Ecb.
+    - destruct (Nat.eqb o co) eqn:E2.
+      + apply Nat.eqb_eq in E2. subst. rewrite Hc. exact Logic.I.
+      + apply cell_sim_strip. }
   assert (Hr : forall o, rooted s' o <-> rooted s o).
-  { intros o. unfold rooted. rewrite Ell, Ech, Eco. tauto. }
+  { intros o. apply rooted_same; auto. }
   split; [|split; [|split; auto]].
   - constructor.
     + exact Hh.
     + rewrite Ell. exact (inv_nodup _ _ I).
-    + intros o. rewrite Ell. intros Ho. destruct (inv_query _ _ I _ Ho) as [q0 [H1 H2]].
-      rewrite (Hquery _ _ H1). eexists. split; [reflexivity|]. destruct (Nat.eqb o qo) eqn:E; auto.
-      apply Nat.eqb_eq in E. subst. rewrite Hq in H1. inversion H1; subst. rewrite Ecb. exact H2.
+    + intros o. rewrite Ell. intros Ho. destruct (inv_query _ _ I _ Ho) as [q0 H1].
+      rewrite (Hquery _ _ H1). eexists. reflexivity.
     + intros qid o H. rewrite Eb in H. destruct (inv_byqid _ _ I _ _ H) as [H1 H2]. rewrite Ell. split; auto.
-      intros q1 H3. destruct (inv_query _ _ I _ H1) as [q0 [H4 _]]. rewrite (Hquery _ _ H4) in H3.
+      intros q1 H3. destruct (inv_query _ _ I _ H1) as [q0 H4]. rewrite (Hquery _ _ H4) in H3.
       inversion H3; subst. destruct (Nat.eqb o qo) eqn:E; auto.
       apply Nat.eqb_eq in E. subst. rewrite Hq in H4. inversion H4; subst. rewrite Eqid. apply H2. exact Hq.
     + intros o Ho. rewrite Ebt in Ho. rewrite Ell. apply in_app_or in Ho. destruct Ho as [Ho|[<-|[]]].
@@ -1447,10 +2015,7 @@ Proof.
       * destruct (Nat.eqb o co) eqn:E2.
         -- apply Nat.eqb_eq in E2. subst. rewrite (H2 _ Ho) in Hc. discriminate.
         -- rewrite (H2 _ Ho). reflexivity.
-    + intros o h. rewrite Hcell. destruct (Nat.eqb o qo); [discriminate|]. destruct (Nat.eqb o co); [discriminate|].
-      pose proof (inv_nohost_cells _ _ I o) as Hn.
-      destruct (cell_of s o) as [[q0|c0|h0|]|]; simpl; try discriminate. intros _. apply (Hn h0). reflexivity.
-    + rewrite Esc. exact (inv_scripts _ _ I).
+    + exact HI'.
   - constructor.
     + intros o c1 H1 H2 _.
       assert (Hn1 : Nat.eqb o qo = false) by (apply Nat.eqb_neq; intros ->; apply H2; left; exact Hl).
@@ -1462,7 +2027,7 @@ Proof.
         -- apply in_remove_nat in Hy. tauto.
         -- destruct (Nat.eqb o co) eqn:E; [|destruct Hy]. apply Nat.eqb_eq in E. subst.
            exfalso. apply H2. right; left. exact Hcin.
-      * split; auto. rewrite Hcell, Hn1. destruct (Nat.eqb o co) eqn:E.
+      * intros _. split; auto. rewrite Hcell, Hn1. destruct (Nat.eqb o co) eqn:E.
         -- apply Nat.eqb_eq in E. subst. rewrite Hc in H1. discriminate.
         -- rewrite H1. reflexivity.
       * split; auto. rewrite Hcell, Hn1. destruct (Nat.eqb o co) eqn:E.
@@ -1470,16 +2035,18 @@ Proof.
         -- rewrite H1. reflexivity.
     + intros o cc H1 H2. eexists. split; [apply Hconn; exists cc; split; [exact H1|reflexivity]|]. simpl. auto.
     + exact Hnx.
+    + exact HF'.
 Qed.
 
 (* objects named in a frame that were rooted before need not be named *)
-Lemma frame_shrink s s' L :
-  Frame s s' L -> (forall x c, In x L -> cell_of s x = Some c -> rooted s x) -> Frame s s' [].
+Lemma frame_shrink g s s' L :
+  FrameG g s s' L -> (forall x c, In x L -> cell_of s x = Some c -> rooted s x) -> FrameG g s s' [].
 Proof.
   intros F H. constructor.
-  - intros x c Hc Hr _. apply (fr_cell _ _ _ F _ _ Hc Hr). intros Hin. apply Hr. eapply H; eauto.
-  - exact (fr_reading _ _ _ F).
-  - exact (fr_next _ _ _ F).
+  - intros x c Hc Hr _. apply (fr_cell _ _ _ _ F _ _ Hc Hr). intros Hin. apply Hr. eapply H; eauto.
+  - exact (fr_reading _ _ _ _ F).
+  - exact (fr_next _ _ _ _ F).
+  - exact (fr_hosts _ _ _ _ F).
 Qed.
 
 Lemma chain_of_linked s qo q : In qo (linked s) -> cell_of s qo = Some (CQuery q) -> incl (cobjs (q_cb q)) (chain s).
@@ -1494,14 +2061,18 @@ Lemma free_conn_frame s co c :
 Proof.
   intros I Hc Eq Hn Hr.
   destruct (free_conn_ok s co c I Hc Eq Hn) as [_ [Ech [Ell Hsame]]].
+  destruct (hosts_sim None s (free_st co s) I) as [_ [HF' Eho]]; auto.
+  { intros o. destruct (Nat.eq_dec o co) as [->|Hne]; [|rewrite Hsame; auto; apply cell_sim_refl].
+    rewrite Hc, cell_free, Nat.eqb_refl. exact Logic.I. }
   constructor.
   - intros o c1 H1 H2 H3. assert (Hne : o <> co) by (intros ->; apply H3; left; auto).
     assert (H4 : ~ rooted (free_st co s) o).
-    { unfold rooted. rewrite Ell, Ech. exact H2. }
+    { rewrite (rooted_same s (free_st co s)); auto. }
     rewrite (Hsame _ Hne). destruct c1; auto. exists c0. repeat split; auto. apply incl_refl.
   - intros o cc H1 H2. assert (Hne : o <> co) by (intros ->; rewrite Hc in H1; inversion H1; subst; congruence).
     exists cc. rewrite (Hsame _ Hne). auto.
   - simpl. lia.
+  - exact HF'.
 Qed.
 
 Lemma store_conn_frame x s co c c' :
@@ -1513,15 +2084,18 @@ Lemma store_conn_frame x s co c c' :
 Proof.
   intros I Hc Eq Es Er H1 H2.
   destruct (store_conn_flags_ok x s co c c' I Hc Eq Es H1 H2) as [_ [Ech [Ell [Hsame Hco]]]].
+  destruct (hosts_sim x s (store_st co (CConn c') s) I) as [_ [HF' Eho]]; auto.
+  { intros o. destruct (Nat.eq_dec o co) as [->|Hne]; [rewrite Hc, Hco; exact Logic.I|rewrite Hsame; auto; apply cell_sim_refl]. }
   constructor.
   - intros o c1 G1 G2 G3. assert (Hne : o <> co) by (intros ->; apply G3; left; auto).
     assert (G4 : ~ rooted (store_st co (CConn c') s) o).
-    { unfold rooted. rewrite Ell, Ech. exact G2. }
+    { rewrite (rooted_same s (store_st co (CConn c') s)); auto. }
     rewrite (Hsame _ Hne). destruct c1; auto. exists c0. repeat split; auto. apply incl_refl.
   - intros o cc G1 G2. destruct (Nat.eq_dec o co) as [->|Hne].
     + rewrite Hc in G1. inversion G1; subst. exists c'. rewrite Hco. repeat split; auto. congruence.
     + exists cc. rewrite (Hsame _ Hne). auto.
   - simpl. lia.
+  - exact HF'.
 Qed.
 
 Lemma find_conn_by_sock_ok x s sock :
@@ -1541,7 +2115,8 @@ Lemma attach_run s qo q co c tcp :
     /\ linked s' = linked s /\ st_conns s' = st_conns s /\ st_tape s' = st_tape s
     /\ st_scripts s' = st_scripts s /\ st_byqid s' = st_byqid s /\ st_trace s' = st_trace s
     /\ (forall o q0, cell_of s o = Some (CQuery q0) ->
-          exists q1, cell_of s' o = Some (CQuery q1) /\ q_cb q1 = q_cb q0).
+          exists q1, cell_of s' o = Some (CQuery q1) /\ q_cb q1 = q_cb q0)
+    /\ (forall o, cell_sim (cell_of s o) (cell_of s' o)).
 Proof.
   intros I Hl Hq Hin Hc Hncl.
   pose proof (inv_heap _ _ I) as Hh.
@@ -1585,21 +2160,27 @@ Proof.
   - eapply heap_store; eauto.
   - intros o. unfold s4. rewrite cell_store. destruct (Nat.eqb o qo) eqn:E; auto.
     unfold s3. rewrite cell_store. destruct (Nat.eqb o co) eqn:E'; auto.
-  - split; [exact I4|]. split; [exact F4|]. split; [exact Ell|]. repeat (split; [reflexivity|]).
-    intros o q0 Ho. unfold s4. rewrite cell_store. destruct (Nat.eqb o qo) eqn:E.
-    + apply Nat.eqb_eq in E. subst. rewrite Hq in Ho. inversion Ho; subst. exists q'. auto.
-    + unfold s3. rewrite cell_store. destruct (Nat.eqb o co) eqn:E'.
-      * apply Nat.eqb_eq in E'. subst. rewrite Hc in Ho. discriminate.
-      * exists q0. rewrite Hcell2, Ho. auto.
+  - split; [exact I4|]. split; [exact F4|]. split; [exact Ell|]. repeat (split; [reflexivity|]). split.
+    + intros o q0 Ho. unfold s4. rewrite cell_store. destruct (Nat.eqb o qo) eqn:E.
+      * apply Nat.eqb_eq in E. subst. rewrite Hq in Ho. inversion Ho; subst. exists q'. auto.
+      * unfold s3. rewrite cell_store. destruct (Nat.eqb o co) eqn:E'.
+        -- apply Nat.eqb_eq in E'. subst. rewrite Hc in Ho. discriminate.
+        -- exists q0. rewrite Hcell2, Ho. auto.
+    + intros o. unfold s4. rewrite cell_store. destruct (Nat.eqb o qo) eqn:E.
+      * apply Nat.eqb_eq in E. subst. rewrite Hq. reflexivity.
+      * unfold s3. rewrite cell_store. destruct (Nat.eqb o co) eqn:E'.
+        -- apply Nat.eqb_eq in E'. subst. rewrite Hc. exact Logic.I.
+        -- rewrite Hcell2. apply cell_sim_strip.
 Qed.
 
-Lemma frame_restrict s s' L L' :
-  Frame s s' L -> (forall x c, In x L -> ~ In x L' -> cell_of s x = Some c -> rooted s x) -> Frame s s' L'.
+Lemma frame_restrict g s s' L L' :
+  FrameG g s s' L -> (forall x c, In x L -> ~ In x L' -> cell_of s x = Some c -> rooted s x) -> FrameG g s s' L'.
 Proof.
   intros F H. constructor.
-  - intros x c Hc Hr Hn. apply (fr_cell _ _ _ F _ _ Hc Hr). intros Hin. apply Hr. eapply H; eauto.
-  - exact (fr_reading _ _ _ F).
-  - exact (fr_next _ _ _ F).
+  - intros x c Hc Hr Hn. apply (fr_cell _ _ _ _ F _ _ Hc Hr). intros Hin. apply Hr. eapply H; eauto.
+  - exact (fr_reading _ _ _ _ F).
+  - exact (fr_next _ _ _ _ F).
+  - exact (fr_hosts _ _ _ _ F).
 Qed.
 
 Lemma fresh_dead x s : InvX x s -> cell_of s (st_next s) = None.
@@ -1627,7 +2208,7 @@ Proof.
   { intros o q H. rewrite Hsame; auto. intros ->. rewrite Hc in H. discriminate. }
   assert (Ech : chain s' = chain s).
   { apply chain_same; auto. intros o Ho. unfold qchain.
-    destruct (inv_query _ _ I _ Ho) as [q [H1 _]]. rewrite (Hqs _ _ H1), H1. reflexivity. }
+    destruct (inv_query _ _ I _ Ho) as [q H1]. rewrite (Hqs _ _ H1), H1. reflexivity. }
   assert (Hconn : forall o c1, cell_of s' o = Some (CConn c1) ->
             exists c0, cell_of s o = Some (CConn c0) /\ c_closed c1 = c_closed c0
                        /\ (forall y, In y (c_queries c1) -> In y (c_queries c0))
@@ -1644,13 +2225,15 @@ Proof.
     - rewrite Hc in H. inversion H; subst. exists c'. repeat split; auto.
       intros y Hy Hn. simpl. apply in_remove_nat. auto.
     - exists c0. rewrite Hsame; auto. }
+  destruct (hosts_sim None s s' I) as [HI' _]; auto.
+  { intros o. destruct (Nat.eq_dec o co) as [->|Hne]; [rewrite Hc, Hco; exact Logic.I|rewrite Hsame; auto; apply cell_sim_refl]. }
   split; [|split; [exact Ell|split; [exact Hco|exact Hsame]]].
   constructor.
   - eapply heap_store; eauto. exact (inv_heap _ _ I).
   - rewrite Ell. exact (inv_nodup _ _ I).
-  - intros o. rewrite Ell. intros Ho. destruct (inv_query _ _ I _ Ho) as [q [H1 H2]]. exists q. split; auto.
+  - intros o. rewrite Ell. intros Ho. destruct (inv_query _ _ I _ Ho) as [q H1]. exists q. auto.
   - intros qid o H. destruct (inv_byqid _ _ I _ _ H) as [H1 H2]. split; auto. intros q Hq. apply H2.
-    destruct (inv_query _ _ I _ H1) as [q0 [H3 _]]. rewrite (Hqs _ _ H3) in Hq. inversion Hq; subst. exact H3.
+    destruct (inv_query _ _ I _ H1) as [q0 H3]. rewrite (Hqs _ _ H3) in Hq. inversion Hq; subst. exact H3.
   - intros o H. destruct (inv_bytmo _ _ I _ H) as [H1 [q [co1 [c1 [H2 [H3 [H4 H5]]]]]]]. split; auto.
     destruct (Hconn' _ _ H4) as [c2 [H6 [_ H7]]]. exists q, co1, c2. repeat split; auto.
     destruct H5 as [H5|H5]; [discriminate|].
@@ -1665,8 +2248,524 @@ Proof.
     assert (Hy : In y (c_queries c0)) by (apply H5; left; auto). rewrite H8 in Hy. destruct Hy.
   - rewrite Ech. destruct (inv_chain _ _ I) as [H1 H2]. split; auto. intros o Ho. rewrite Hsame; auto.
     intros ->. rewrite (H2 _ Ho) in Hc. discriminate.
-  - intros o h. destruct (Nat.eq_dec o co) as [->|Hne].
-    + rewrite Hco. discriminate.
-    + rewrite Hsame; auto. exact (inv_nohost_cells _ _ I o h).
-  - exact (inv_scripts _ _ I).
+  - exact HI'.
 Qed.
+
+(* ---------------------------------------------------------------------------------- *)
+(* host_query cells                                                                    *)
+(* ---------------------------------------------------------------------------------- *)
+Lemma hobjs_upd s s' o :
+  o < st_next s -> st_next s' = st_next s ->
+  (forall o', o' <> o -> shared_at s' o' = shared_at s o') ->
+  exists A B, hobjs s = A ++ hcb_objs s o ++ B /\ hobjs s' = A ++ hcb_objs s' o ++ B.
+Proof.
+  intros Ho En Hs.
+  exists (flat_map (hcb_objs s) (seq 0 o)), (flat_map (hcb_objs s) (seq (S o) (st_next s - S o))).
+  assert (Eseq : seq 0 (st_next s) = seq 0 o ++ o :: seq (S o) (st_next s - S o)).
+  { replace (st_next s) with (o + S (st_next s - S o)) at 1 by lia. rewrite seq_app. reflexivity. }
+  split.
+  - unfold hobjs. rewrite Eseq, flat_map_app. reflexivity.
+  - unfold hobjs. rewrite En, Eseq, flat_map_app. simpl. f_equal; [|f_equal].
+    + apply flat_map_ext_in'. intros a Ha. apply in_seq in Ha. unfold hcb_objs. rewrite Hs; auto. lia.
+    + apply flat_map_ext_in'. intros a Ha. apply in_seq in Ha. unfold hcb_objs. rewrite Hs; auto. lia.
+Qed.
+
+Lemma nrefs_zero s o qo : nrefs s o = 0 -> In qo (linked s) -> href s qo <> Some o.
+Proof.
+  unfold nrefs, refs_to. intros Hz Hin He.
+  assert (Hf : In qo (filter (fun qo0 => match href s qo0 with Some o' => Nat.eqb o o' | None => false end) (linked s))).
+  { apply filter_In. split; auto. rewrite He. apply Nat.eqb_refl. }
+  destruct (filter _ (linked s)); [destruct Hf|discriminate].
+Qed.
+
+Lemma nrefs_unshared x s o : InvX x s -> shared_at s o = None -> nrefs s o = 0.
+Proof.
+  intros I Hs. unfold nrefs, refs_to.
+  rewrite (filter_ext_in _ (fun _ => false)); [induction (linked s); simpl; auto|].
+  intros qo Hq. destruct (href s qo) as [o'|] eqn:E; auto. destruct (Nat.eqb o o') eqn:E'; auto.
+  apply Nat.eqb_eq in E'. subst o'. destruct (hi_ref _ (inv_hosts _ _ I) _ _ Hq E) as [h Hh]. congruence.
+Qed.
+
+(* common part: a change of the cell at a host_query object *)
+Lemma host_cell_upd x s s' o :
+  InvX x s -> heap_ok s' -> (exists h, cell_of s o = Some (CHost h)) \/ o = st_next s ->
+  st_lists s' = st_lists s -> st_byqid s' = st_byqid s -> st_bytmo s' = st_bytmo s -> st_conns s' = st_conns s ->
+  (forall o', o' <> o -> cell_of s' o' = cell_of s o') ->
+  (forall c, cell_of s' o <> Some (CConn c)) ->
+  HostInv s' ->
+  InvX x s' /\ chain s' = chain s /\ linked s' = linked s.
+Proof.
+  intros I Hh Ho El Eq Et Ec Hsame Hnc HI'.
+  assert (Hnr : ~ (In o (linked s) \/ In o (st_conns s) \/ In o (chain s))).
+  { intros H. destruct Ho as [[h Hc]| ->].
+    - apply (host_unrooted _ _ _ _ I Hc). destruct H as [H|[H|H]]; [left|right; left|right; right; left]; exact H.
+    - apply (fresh_unrooted _ _ I). destruct H as [H|[H|H]]; [left|right; left|right; right; left]; exact H. }
+  apply inv_cells_irrelevant_gen; auto.
+  - intros o' H. apply Hsame. intros ->. contradiction.
+  - intros o' c. destruct (Nat.eq_dec o' o) as [->|Hne].
+    + split; intros H; [exfalso; eapply Hnc; eauto|].
+      destruct Ho as [[h Hc]| ->]; [congruence|]. pose proof (live_lt _ _ _ (inv_heap _ _ I) H). lia.
+    + rewrite Hsame; auto. tauto.
+Qed.
+
+(* the host_query of a new request: not yet waiting for anything *)
+Lemma alloc_host_ok x s h0 :
+  InvX x s -> h_remaining h0 = 0 ->
+  let o := st_next s in
+  let s' := alloc_st (CHost h0) s in
+  InvX x s' /\ cell_of s' o = Some (CHost h0) /\ (forall o', o' <> o -> cell_of s' o' = cell_of s o')
+  /\ linked s' = linked s /\ (forall y, rooted s' y <-> rooted s y)
+  /\ (forall o', shared_at s' o' = shared_at s o') /\ (forall o', nrefs s' o' = nrefs s o').
+Proof.
+  intros I Hz o s'.
+  assert (Hsame : forall o', o' <> o -> cell_of s' o' = cell_of s o').
+  { intros o' Hne. unfold s'. rewrite cell_alloc. apply Nat.eqb_neq in Hne. fold o. rewrite Hne. reflexivity. }
+  assert (Hco : cell_of s' o = Some (CHost h0)) by (unfold s', o; rewrite cell_alloc, Nat.eqb_refl; reflexivity).
+  assert (Hsh : forall o', shared_at s' o' = shared_at s o').
+  { intros o'. unfold shared_at. destruct (Nat.eq_dec o' o) as [->|Hne].
+    - rewrite Hco, Hz. simpl. unfold o.
+      destruct (cell_of s (st_next s)) eqn:E; auto. pose proof (live_lt _ _ _ (inv_heap _ _ I) E). lia.
+    - rewrite Hsame; auto. }
+  assert (Hhr : forall qo, In qo (linked s) -> href s' qo = href s qo).
+  { intros qo Hq. apply href_same. apply Hsame. intros ->. destruct (inv_query _ _ I _ Hq) as [q Hc].
+    pose proof (live_lt _ _ _ (inv_heap _ _ I) Hc). unfold o in *. lia. }
+  assert (Eho : hobjs s' = hobjs s) by (apply hobjs_same; auto; [exact (inv_heap _ _ I)|simpl; lia]).
+  assert (HI' : HostInv s').
+  { apply (hostinv_same s s'); auto.
+    - exact (inv_hosts _ _ I).
+    - exact (inv_heap _ _ I).
+    - simpl. lia.
+    - intros y Hy. destruct (hi_objs _ (inv_hosts _ _ I)) as [_ H]. destruct (H _ Hy) as [H1 _]. rewrite Hsame; auto.
+      intros ->. pose proof (live_lt _ _ _ (inv_heap _ _ I) H1). unfold o in *. lia.
+    - intros y Hy. unfold chain in *. apply in_flat_map in Hy. destruct Hy as [qo [Hq Hy]]. apply in_flat_map. exists qo.
+      split; auto. unfold qchain in *. destruct (inv_query _ _ I _ Hq) as [q Hc].
+      rewrite Hsame in Hy; auto. intros ->. pose proof (live_lt _ _ _ (inv_heap _ _ I) Hc). unfold o in *. lia. }
+  destruct (host_cell_upd x s s' o I) as [I' [Ech Ell]]; auto.
+  - apply heap_alloc. exact (inv_heap _ _ I).
+  - intros c. rewrite Hco. discriminate.
+  - split; [exact I'|]. split; [exact Hco|]. split; [exact Hsame|]. split; [exact Ell|].
+    split; [intros y; apply rooted_same; auto|]. split; [exact Hsh|]. apply nrefs_same; auto.
+Qed.
+
+Lemma own_same s s' L :
+  (forall y, In y L -> cell_of s' y = cell_of s y) -> (forall y, rooted s' y <-> rooted s y) -> Own s L -> Own s' L.
+Proof.
+  intros Hc Hr [H1 H2]. split; auto. intros y Hy. destruct (H2 _ Hy) as [H3 H4]. rewrite Hc, Hr; auto.
+Qed.
+
+(* a host_query that is not waiting for anything changes (lookups left, names left, ...) or is released *)
+Lemma store_host_excl_ok x s o h h' :
+  InvX x s -> cell_of s o = Some (CHost h) -> h_remaining h = 0 -> h_remaining h' = 0 ->
+  let s' := store_st o (CHost h') s in
+  InvX x s' /\ Frame s s' [o] /\ cell_of s' o = Some (CHost h') /\ (forall o', o' <> o -> cell_of s' o' = cell_of s o')
+  /\ linked s' = linked s /\ (forall y, rooted s' y <-> rooted s y).
+Proof.
+  intros I Hc Hz Hz' s'.
+  assert (Hsame : forall o', o' <> o -> cell_of s' o' = cell_of s o').
+  { intros o' Hne. unfold s'. rewrite cell_store. apply Nat.eqb_neq in Hne. rewrite Hne. reflexivity. }
+  assert (Hco : cell_of s' o = Some (CHost h')) by (unfold s'; rewrite cell_store, Nat.eqb_refl; reflexivity).
+  assert (Hsh : forall o', shared_at s' o' = shared_at s o').
+  { intros o'. unfold shared_at. destruct (Nat.eq_dec o' o) as [->|Hne].
+    - rewrite Hco, Hc, Hz, Hz'. reflexivity.
+    - rewrite Hsame; auto. }
+  pose proof (host_unrooted _ _ _ _ I Hc) as Hnr.
+  destruct (inv_cells_irrelevant x s s') as [I' [Ech [Ell Eho]]]; auto.
+  - eapply heap_store; eauto. exact (inv_heap _ _ I).
+  - intros o' Hr. apply Hsame. intros ->. contradiction.
+  - intros o' c. destruct (Nat.eq_dec o' o) as [->|Hne]; [rewrite Hco, Hc; split; discriminate|rewrite Hsame; auto; tauto].
+  - assert (Hr : forall y, rooted s' y <-> rooted s y) by (intros y; apply rooted_same; auto).
+    split; [exact I'|]. split; [|split; [exact Hco|split; [exact Hsame|split; [exact Ell|exact Hr]]]].
+    constructor.
+    + intros y c H1 H2 H3. assert (Hne : y <> o) by (intros ->; apply H3; left; auto).
+      assert (H4 : ~ rooted s' y) by (rewrite Hr; exact H2).
+      rewrite (Hsame _ Hne). destruct c; auto. exists c. repeat split; auto. apply incl_refl.
+    + intros y cc H1 H2. exists cc. rewrite Hsame; auto. intros ->. congruence.
+    + simpl. lia.
+    + apply hframe_same_gen; auto.
+      * exact (inv_heap _ _ I).
+      * intros qo Hq. apply href_same. apply Hsame. intros ->. apply Hnr. left. exact Hq.
+      * intros o' h1 Hs. destruct (shared_host _ _ _ Hs) as [Hc1 Hp]. rewrite Hsame; auto. intros ->. rewrite Hc in Hc1. inversion Hc1; subst. lia.
+      * intros o' h1 Hc1. destruct (Nat.eq_dec o' o) as [->|Hne]; [eauto|]. rewrite Hsame in Hc1; eauto.
+Qed.
+
+Lemma free_host_ok x s o h :
+  InvX x s -> cell_of s o = Some (CHost h) -> h_remaining h = 0 ->
+  let s' := free_st o s in
+  InvX x s' /\ Frame s s' [o] /\ (forall o', o' <> o -> cell_of s' o' = cell_of s o')
+  /\ linked s' = linked s /\ (forall y, rooted s' y <-> rooted s y).
+Proof.
+  intros I Hc Hz s'.
+  assert (Hsame : forall o', o' <> o -> cell_of s' o' = cell_of s o').
+  { intros o' Hne. unfold s'. rewrite cell_free. apply Nat.eqb_neq in Hne. rewrite Hne. reflexivity. }
+  assert (Hco : cell_of s' o = None) by (unfold s'; rewrite cell_free, Nat.eqb_refl; reflexivity).
+  assert (Hsh : forall o', shared_at s' o' = shared_at s o').
+  { intros o'. unfold shared_at. destruct (Nat.eq_dec o' o) as [->|Hne].
+    - rewrite Hco, Hc, Hz. reflexivity.
+    - rewrite Hsame; auto. }
+  pose proof (host_unrooted _ _ _ _ I Hc) as Hnr.
+  destruct (inv_cells_irrelevant x s s') as [I' [Ech [Ell Eho]]]; auto.
+  - eapply heap_free; eauto. exact (inv_heap _ _ I).
+  - intros o' Hr. apply Hsame. intros ->. contradiction.
+  - intros o' c. destruct (Nat.eq_dec o' o) as [->|Hne]; [rewrite Hco, Hc; split; discriminate|rewrite Hsame; auto; tauto].
+  - assert (Hr : forall y, rooted s' y <-> rooted s y) by (intros y; apply rooted_same; auto).
+    split; [exact I'|]. split; [|split; [exact Hsame|split; [exact Ell|exact Hr]]].
+    constructor.
+    + intros y c H1 H2 H3. assert (Hne : y <> o) by (intros ->; apply H3; left; auto).
+      assert (H4 : ~ rooted s' y) by (rewrite Hr; exact H2).
+      rewrite (Hsame _ Hne). destruct c; auto. exists c. repeat split; auto. apply incl_refl.
+    + intros y cc H1 H2. exists cc. rewrite Hsame; auto. intros ->. congruence.
+    + simpl. lia.
+    + apply hframe_same_gen; auto.
+      * exact (inv_heap _ _ I).
+      * intros qo Hq. apply href_same. apply Hsame. intros ->. apply Hnr. left. exact Hq.
+      * intros o' h1 Hs. destruct (shared_host _ _ _ Hs) as [Hc1 Hp]. rewrite Hsame; auto. intros ->. rewrite Hc in Hc1. inversion Hc1; subst. lia.
+      * intros o' h1 Hc1. destruct (Nat.eq_dec o' o) as [->|Hne]; [congruence|]. rewrite Hsame in Hc1; eauto.
+Qed.
+
+(* a shared host_query changes but stays shared (an answer arrived and others are still awaited:
+   g = Some o; the ids of its queries, the addrinfo collected so far: g = None) *)
+Lemma store_host_shared_ok x s o h h' g :
+  InvX x s -> shared_at s o = Some h -> h_cb h' = h_cb h -> 0 < h_remaining h' ->
+  h_remaining h' + g o = h_remaining h -> (forall o', o' <> o -> g o' = 0) ->
+  nrefs s o + g o <= h_remaining h ->
+  let s' := store_st o (CHost h') s in
+  InvX x s' /\ FrameG g s s' [] /\ shared_at s' o = Some h' /\ (forall o', o' <> o -> cell_of s' o' = cell_of s o')
+  /\ linked s' = linked s /\ (forall y, rooted s' y <-> rooted s y) /\ (forall o', nrefs s' o' = nrefs s o').
+Proof.
+  intros I Hs Ecb Hp Er Hg Hle s'.
+  destruct (shared_host _ _ _ Hs) as [Hc Hp0].
+  pose proof (inv_hosts _ _ I) as HI. pose proof (inv_heap _ _ I) as Hh.
+  assert (Hsame : forall o', o' <> o -> cell_of s' o' = cell_of s o').
+  { intros o' Hne. unfold s'. rewrite cell_store. apply Nat.eqb_neq in Hne. rewrite Hne. reflexivity. }
+  assert (Hco : cell_of s' o = Some (CHost h')) by (unfold s'; rewrite cell_store, Nat.eqb_refl; reflexivity).
+  assert (Hs' : shared_at s' o = Some h') by (apply shared_intro; auto).
+  assert (Hsh : forall o', o' <> o -> shared_at s' o' = shared_at s o').
+  { intros o' Hne. unfold shared_at. rewrite Hsame; auto. }
+  pose proof (host_unrooted _ _ _ _ I Hc) as Hnr.
+  assert (Hhr : forall qo, In qo (linked s) -> href s' qo = href s qo).
+  { intros qo Hq. apply href_same. apply Hsame. intros ->. apply Hnr. left. exact Hq. }
+  assert (Ell : linked s' = linked s) by reflexivity.
+  assert (Enr : forall o', nrefs s' o' = nrefs s o') by (apply nrefs_same; auto).
+  destruct (hobjs_upd s s' o (live_lt _ _ _ Hh Hc) eq_refl Hsh) as [A [B [EA EB]]].
+  assert (Eho : hobjs s' = hobjs s).
+  { rewrite EA, EB. unfold hcb_objs. rewrite Hs, Hs', Ecb. reflexivity. }
+  assert (Ech : chain s' = chain s).
+  { apply qchain_upd; auto. intros qo Hq. apply Hsame. intros ->. apply Hnr. left. exact Hq. }
+  assert (HI' : HostInv s').
+  { constructor.
+    - intros qo o'. rewrite Ell. intros Hq. rewrite (Hhr _ Hq). intros He. destruct (hi_ref _ HI _ _ Hq He) as [h1 H1].
+      destruct (Nat.eq_dec o' o) as [->|Hne]; [eauto|]. rewrite Hsh; eauto.
+    - intros o' h1. rewrite Enr. destruct (Nat.eq_dec o' o) as [->|Hne].
+      + rewrite Hs'. intros E. inversion E; subst h1. lia.
+      + rewrite Hsh; auto. apply (hi_cnt _ HI).
+    - intros o' h1. destruct (Nat.eq_dec o' o) as [->|Hne].
+      + rewrite Hs'. intros E. inversion E; subst h1. rewrite Ecb. exact (hi_nohost _ HI _ _ Hs).
+      + rewrite Hsh; auto. apply (hi_nohost _ HI).
+    - rewrite Eho. destruct (hi_objs _ HI) as [H1 H2]. split; auto. intros y Hy. destruct (H2 _ Hy) as [H3 H4].
+      split; [rewrite Hsame; auto; intros ->; congruence|]. rewrite Ech. exact H4. }
+  destruct (host_cell_upd x s s' o I) as [I' _]; eauto.
+  { eapply heap_store; eauto. }
+  { intros c. rewrite Hco. discriminate. }
+  assert (Hr : forall y, rooted s' y <-> rooted s y) by (intros y; apply rooted_same; auto).
+  split; [exact I'|]. split; [|split; [exact Hs'|split; [exact Hsame|split; [exact Ell|split; [exact Hr|exact Enr]]]]].
+  constructor.
+  - intros y c H1 H2 _. assert (H4 : ~ rooted s' y) by (rewrite Hr; exact H2).
+    destruct (Nat.eq_dec y o) as [->|Hne].
+    + rewrite Hc in H1. inversion H1; subst c. intros Hz. lia.
+    + rewrite (Hsame _ Hne). destruct c; auto. exists c. repeat split; auto. apply incl_refl.
+  - intros y cc H1 H2. exists cc. rewrite Hsame; auto. intros ->. congruence.
+  - simpl. lia.
+  - constructor.
+    + intros o' h1 Hs1 Hd. destruct (Nat.eq_dec o' o) as [->|Hne].
+      * rewrite Hs in Hs1. inversion Hs1; subst h1. split; [eauto|]. intros h2 Hc2. rewrite Hco in Hc2. inversion Hc2; subst h2.
+        rewrite Enr. repeat split; auto. lia.
+      * destruct (shared_host _ _ _ Hs1) as [Hc1 Hp1]. split; [rewrite Hsame; eauto|].
+        intros h2 Hc2. rewrite Hsame in Hc2; auto. rewrite Hc1 in Hc2. inversion Hc2; subst h2. rewrite Enr, (Hg _ Hne). repeat split; auto. lia.
+    + intros o' h2 Ho' Hc2. destruct (Nat.eq_dec o' o) as [->|Hne].
+      * pose proof (live_lt _ _ _ Hh Hc). simpl in Ho'. lia.
+      * rewrite Hsame in Hc2; auto. pose proof (live_lt _ _ _ Hh Hc2). lia.
+    + intros o' h2 _ Hc2. destruct (Nat.eq_dec o' o) as [->|Hne]; [eauto|]. rewrite Hsame in Hc2; eauto.
+    + intros o' h1 Hs1. eapply shared_lt; eauto.
+Qed.
+
+(* next_dns_lookup: the host_query starts to wait for n answers; the objects of its callback
+   are from now on released by whoever delivers the last answer *)
+Lemma store_host_share_ok x s o h h' :
+  InvX x s -> cell_of s o = Some (CHost h) -> h_remaining h = 0 -> Own s (cobjs (h_cb h)) -> nohost (h_cb h) ->
+  h_cb h' = h_cb h -> 0 < h_remaining h' ->
+  let s' := store_st o (CHost h') s in
+  InvX x s' /\ Frame s s' (o :: cobjs (h_cb h)) /\ shared_at s' o = Some h' /\ nrefs s' o = 0
+  /\ (forall o', o' <> o -> cell_of s' o' = cell_of s o') /\ linked s' = linked s.
+Proof.
+  intros I Hc Hz [On Oc] Hnh Ecb Hp s'.
+  pose proof (inv_hosts _ _ I) as HI. pose proof (inv_heap _ _ I) as Hh.
+  assert (Hs0 : shared_at s o = None) by (unfold shared_at; rewrite Hc, Hz; reflexivity).
+  assert (Hsame : forall o', o' <> o -> cell_of s' o' = cell_of s o').
+  { intros o' Hne. unfold s'. rewrite cell_store. apply Nat.eqb_neq in Hne. rewrite Hne. reflexivity. }
+  assert (Hco : cell_of s' o = Some (CHost h')) by (unfold s'; rewrite cell_store, Nat.eqb_refl; reflexivity).
+  assert (Hs' : shared_at s' o = Some h') by (apply shared_intro; auto).
+  assert (Hsh : forall o', o' <> o -> shared_at s' o' = shared_at s o').
+  { intros o' Hne. unfold shared_at. rewrite Hsame; auto. }
+  pose proof (host_unrooted _ _ _ _ I Hc) as Hnr.
+  assert (Hhr : forall qo, In qo (linked s) -> href s' qo = href s qo).
+  { intros qo Hq. apply href_same. apply Hsame. intros ->. apply Hnr. left. exact Hq. }
+  assert (Ell : linked s' = linked s) by reflexivity.
+  assert (Enr : forall o', nrefs s' o' = nrefs s o') by (apply nrefs_same; auto).
+  destruct (hobjs_upd s s' o (live_lt _ _ _ Hh Hc) eq_refl Hsh) as [A [B [EA EB]]].
+  unfold hcb_objs in EA, EB. rewrite Hs0 in EA. rewrite Hs', Ecb in EB. simpl in EA.
+  assert (Ech : chain s' = chain s).
+  { apply qchain_upd; auto. intros qo Hq. apply Hsame. intros ->. apply Hnr. left. exact Hq. }
+  assert (Hin' : forall y, In y (hobjs s') <-> In y (cobjs (h_cb h)) \/ In y (hobjs s)).
+  { intros y. rewrite EA, EB, !in_app_iff. tauto. }
+  assert (Hz0 : nrefs s o = 0) by (eapply nrefs_unshared; eauto).
+  assert (HI' : HostInv s').
+  { constructor.
+    - intros qo o'. rewrite Ell. intros Hq. rewrite (Hhr _ Hq). intros He. destruct (hi_ref _ HI _ _ Hq He) as [h1 H1].
+      destruct (Nat.eq_dec o' o) as [->|Hne]; [eauto|]. rewrite Hsh; eauto.
+    - intros o' h1. rewrite Enr. destruct (Nat.eq_dec o' o) as [->|Hne].
+      + rewrite Hs'. intros E. inversion E; subst h1. lia.
+      + rewrite Hsh; auto. apply (hi_cnt _ HI).
+    - intros o' h1. destruct (Nat.eq_dec o' o) as [->|Hne].
+      + rewrite Hs'. intros E. inversion E; subst h1. rewrite Ecb. exact Hnh.
+      + rewrite Hsh; auto. apply (hi_nohost _ HI).
+    - destruct (hi_objs _ HI) as [H1 H2]. split.
+      + rewrite EB. rewrite EA in H1. apply NoDup_app_iff in H1. destruct H1 as [Ha [Hb Hab]].
+        apply NoDup_app_iff. split; [exact Ha|]. split.
+        * apply NoDup_app_iff. split; [exact On|]. split; [exact Hb|]. intros y Hy Hy'.
+          destruct (Oc _ Hy) as [_ Hr]. apply Hr. right; right; right. rewrite EA. apply in_or_app. right. exact Hy'.
+        * intros y Hy Hy'. apply in_app_or in Hy'. destruct Hy' as [Hy'|Hy']; [|exact (Hab _ Hy Hy')].
+          destruct (Oc _ Hy') as [_ Hr]. apply Hr. right; right; right. rewrite EA. apply in_or_app. left. exact Hy.
+      + intros y Hy. apply Hin' in Hy. rewrite Ech. destruct Hy as [Hy|Hy].
+        * destruct (Oc _ Hy) as [H3 Hr]. split.
+          -- rewrite Hsame; auto. intros ->. congruence.
+          -- intros Hch. apply Hr. right; right; left. exact Hch.
+        * destruct (H2 _ Hy) as [H3 H4]. split; auto. rewrite Hsame; auto. intros ->. congruence. }
+  destruct (host_cell_upd x s s' o I) as [I' _]; eauto.
+  { eapply heap_store; eauto. }
+  { intros c. rewrite Hco. discriminate. }
+  split; [exact I'|]. split; [|split; [exact Hs'|split; [rewrite Enr; exact Hz0|split; [exact Hsame|exact Ell]]]].
+  constructor.
+  - intros y c H1 H2 H3. assert (Hne : y <> o) by (intros ->; apply H3; left; auto).
+    assert (H4 : ~ rooted s' y).
+    { intros [H|[H|[H|H]]].
+      - apply H2. left. exact H.
+      - apply H2. right; left. exact H.
+      - apply H2. right; right; left. rewrite Ech in H. exact H.
+      - apply Hin' in H. destruct H as [H|H]; [apply H3; right; exact H|apply H2; right; right; right; exact H]. }
+    rewrite (Hsame _ Hne). destruct c; auto. exists c. repeat split; auto. apply incl_refl.
+  - intros y cc H1 H2. exists cc. rewrite Hsame; auto. intros ->. congruence.
+  - simpl. lia.
+  - apply hframe_same_gen; auto.
+    + intros o' h1 Hs1. destruct (shared_host _ _ _ Hs1) as [Hc1 _]. rewrite Hsame; auto. intros ->. congruence.
+    + intros o' h1 Hc1. destruct (Nat.eq_dec o' o) as [->|Hne]; [eauto|]. rewrite Hsame in Hc1; eauto.
+Qed.
+
+(* host_callback for the last awaited answer: nothing points at the host_query any more, it
+   belongs to the function that goes on with it *)
+Lemma store_host_unshare_ok x s o h h' :
+  InvX x s -> shared_at s o = Some h -> nrefs s o = 0 -> h_cb h' = h_cb h -> h_remaining h' = 0 ->
+  let s' := store_st o (CHost h') s in
+  InvX x s' /\ cell_of s' o = Some (CHost h') /\ Own s' (cobjs (h_cb h)) /\ nohost (h_cb h)
+  /\ (forall o', o' <> o -> cell_of s' o' = cell_of s o') /\ linked s' = linked s
+  /\ (forall y, rooted s' y -> rooted s y) /\ (forall o', o' <> o -> shared_at s' o' = shared_at s o')
+  /\ (forall o', nrefs s' o' = nrefs s o').
+Proof.
+  intros I Hs Hz0 Ecb Hz s'.
+  destruct (shared_host _ _ _ Hs) as [Hc Hp0].
+  pose proof (inv_hosts _ _ I) as HI. pose proof (inv_heap _ _ I) as Hh.
+  assert (Hsame : forall o', o' <> o -> cell_of s' o' = cell_of s o').
+  { intros o' Hne. unfold s'. rewrite cell_store. apply Nat.eqb_neq in Hne. rewrite Hne. reflexivity. }
+  assert (Hco : cell_of s' o = Some (CHost h')) by (unfold s'; rewrite cell_store, Nat.eqb_refl; reflexivity).
+  assert (Hs' : shared_at s' o = None) by (unfold shared_at; rewrite Hco, Hz; reflexivity).
+  assert (Hsh : forall o', o' <> o -> shared_at s' o' = shared_at s o').
+  { intros o' Hne. unfold shared_at. rewrite Hsame; auto. }
+  pose proof (host_unrooted _ _ _ _ I Hc) as Hnr.
+  assert (Hhr : forall qo, In qo (linked s) -> href s' qo = href s qo).
+  { intros qo Hq. apply href_same. apply Hsame. intros ->. apply Hnr. left. exact Hq. }
+  assert (Ell : linked s' = linked s) by reflexivity.
+  assert (Enr : forall o', nrefs s' o' = nrefs s o') by (apply nrefs_same; auto).
+  destruct (hobjs_upd s s' o (live_lt _ _ _ Hh Hc) eq_refl Hsh) as [A [B [EA EB]]].
+  unfold hcb_objs in EA, EB. rewrite Hs in EA. rewrite Hs' in EB. simpl in EB.
+  assert (Ech : chain s' = chain s).
+  { apply qchain_upd; auto. intros qo Hq. apply Hsame. intros ->. apply Hnr. left. exact Hq. }
+  destruct (hi_objs _ HI) as [Hnd Hob].
+  assert (Hnd' := Hnd). rewrite EA in Hnd'. apply NoDup_app_iff in Hnd'. destruct Hnd' as [Ha [Hxb Hab]].
+  apply NoDup_app_iff in Hxb. destruct Hxb as [Hx [Hb Hxb]].
+  assert (Hsub : forall y, In y (hobjs s') -> In y (hobjs s)).
+  { intros y. rewrite EA, EB, !in_app_iff. tauto. }
+  assert (HI' : HostInv s').
+  { constructor.
+    - intros qo o'. rewrite Ell. intros Hq. rewrite (Hhr _ Hq). intros He. destruct (hi_ref _ HI _ _ Hq He) as [h1 H1].
+      destruct (Nat.eq_dec o' o) as [->|Hne]; [exfalso; exact (nrefs_zero _ _ _ Hz0 Hq He)|]. rewrite Hsh; eauto.
+    - intros o' h1. rewrite Enr. destruct (Nat.eq_dec o' o) as [->|Hne]; [rewrite Hs'; discriminate|].
+      rewrite Hsh; auto. apply (hi_cnt _ HI).
+    - intros o' h1. destruct (Nat.eq_dec o' o) as [->|Hne]; [rewrite Hs'; discriminate|].
+      rewrite Hsh; auto. apply (hi_nohost _ HI).
+    - split.
+      + rewrite EB. apply NoDup_app_iff. split; [exact Ha|]. split; [exact Hb|].
+        intros y Hy Hy'. apply (Hab _ Hy). apply in_or_app. right. exact Hy'.
+      + intros y Hy. destruct (Hob _ (Hsub _ Hy)) as [H3 H4]. rewrite Ech. split; auto.
+        rewrite Hsame; auto. intros ->. congruence. }
+  destruct (host_cell_upd x s s' o I) as [I' _]; eauto.
+  { eapply heap_store; eauto. }
+  { intros c. rewrite Hco. discriminate. }
+  assert (Hrt : forall y, rooted s' y -> rooted s y).
+  { intros y [H|[H|[H|H]]]; [left|right; left|right; right; left; rewrite <- Ech|right; right; right; apply Hsub]; exact H. }
+  split; [exact I'|]. split; [exact Hco|]. split; [|split; [exact (hi_nohost _ HI _ _ Hs)|split; [exact Hsame|split; [exact Ell|split; [exact Hrt|split; [exact Hsh|exact Enr]]]]]].
+  split; [exact Hx|]. intros y Hy.
+  assert (Hyo : In y (hobjs s)) by (rewrite EA; apply in_or_app; right; apply in_or_app; left; exact Hy).
+  destruct (Hob _ Hyo) as [H3 H4]. split.
+  - rewrite Hsame; auto. intros ->. congruence.
+  - intros [H|[H|[H|H]]].
+    + destruct (inv_query _ _ I _ H) as [q Hq]. congruence.
+    + destruct (inv_conns _ _ I) as [_ Hcc]. destruct (Hcc _ H) as [c [Hc' _]]. congruence.
+    + rewrite Ech in H. contradiction.
+    + rewrite EB in H. apply in_app_or in H. destruct H as [H|H].
+      * apply (Hab _ H). apply in_or_app. left. exact Hy.
+      * exact (Hxb _ Hy H).
+Qed.
+
+(* what is left of a host_query after the function that worked on it returns: nothing, or a
+   shared host_query that waits for exactly the queries pointing at it *)
+Definition settled (s : state) (o : obj) (k : cbk) : Prop :=
+  forall h, cell_of s o = Some (CHost h) -> 0 < h_remaining h /\ h_cb h = k /\ h_remaining h = nrefs s o.
+
+(* host_callback delivering the last awaited answer, then going on with the host_query *)
+Lemma frame_unshare_then x s o h h' s2 L :
+  InvX x s -> shared_at s o = Some h -> nrefs s o = 0 -> h_remaining h = 1 -> h_cb h' = h_cb h -> h_remaining h' = 0 ->
+  Frame (store_st o (CHost h') s) s2 L -> incl L (o :: cobjs (h_cb h)) ->
+  settled s2 o (h_cb h) ->
+  FrameG (dg (Some o)) s s2 [].
+Proof.
+  intros I Hs Hz0 Hr1 Ecb Hz F HL Hst.
+  destruct (store_host_unshare_ok x s o h h' I Hs Hz0 Ecb Hz) as [I1 [Hco [O1 [Hnh [Hsame [Ell [Hrt [Hsh Enr]]]]]]]].
+  set (s1 := store_st o (CHost h') s) in *.
+  destruct (shared_host _ _ _ Hs) as [Hc Hp]. pose proof (inv_heap _ _ I) as Hh.
+  pose proof (fr_hosts _ _ _ _ F) as HF.
+  constructor.
+  - intros y c H1 H2 _.
+    destruct (Nat.eq_dec y o) as [->|Hne].
+    { rewrite Hc in H1. inversion H1; subst c. intros Hz'. lia. }
+    assert (H1' : cell_of s1 y = Some c) by (rewrite Hsame; auto).
+    assert (H2' : ~ rooted s1 y) by (intros H; apply H2; apply Hrt; exact H).
+    assert (H3' : ~ In y L).
+    { intros Hin. apply HL in Hin. destruct Hin as [->|Hin]; [congruence|].
+      apply H2. right; right; right. apply in_hobjs; auto. exists o, h. auto. }
+    exact (fr_cell _ _ _ _ F _ _ H1' H2' H3').
+  - intros y cc H1 H2. apply (fr_reading _ _ _ _ F y cc); auto. rewrite Hsame; auto. intros ->. congruence.
+  - exact (fr_next _ _ _ _ F).
+  - constructor.
+    + intros o' h1 Hs1 Hd. destruct (Nat.eq_dec o' o) as [->|Hne].
+      * rewrite Hs in Hs1. inversion Hs1; subst h1. simpl in *. rewrite Nat.eqb_refl in *. split; [intros; lia|].
+        intros h2 Hc2. destruct (Hst _ Hc2) as [B1 [B2 B3]]. repeat split; auto. lia.
+      * assert (Hs1' : shared_at s1 o' = Some h1) by (rewrite Hsh; auto).
+        assert (Ed : dg (Some o) o' = 0) by (simpl; apply Nat.eqb_neq in Hne; rewrite Hne; reflexivity).
+        rewrite Ed in *.
+        destruct (hf_host _ _ _ HF _ _ Hs1' ltac:(rewrite Enr; simpl; lia)) as [A1 A2]. rewrite Enr in A1, A2. simpl in A1, A2.
+        split; [intros; apply A1; lia|]. intros h2 Hc2. destruct (A2 _ Hc2) as [B1 [B2 B3]]. repeat split; auto; try lia.
+    + exact (hf_new _ _ _ HF).
+    + intros o' h2 Ho' Hc2. destruct (hf_old _ _ _ HF o' h2 Ho' Hc2) as [h1 Hc1].
+      destruct (Nat.eq_dec o' o) as [->|Hne]; [eauto|]. rewrite Hsame in Hc1; eauto.
+    + intros o' h1 Hs1. eapply shared_lt; eauto.
+Qed.
+
+(* getaddrinfo: the host_query was created by the request itself *)
+Lemma frame_alloc_host_drop x s h0 s2 L :
+  InvX x s -> h_remaining h0 = 0 ->
+  Frame (alloc_st (CHost h0) s) s2 (st_next s :: L) -> settled s2 (st_next s) (h_cb h0) ->
+  Frame s s2 L.
+Proof.
+  intros I Hz F Hst.
+  destruct (alloc_host_ok x s h0 I Hz) as [I1 [Hco [Hsame [Ell [Hrt [Hsh Enr]]]]]].
+  set (o := st_next s) in *. set (s1 := alloc_st (CHost h0) s) in *.
+  pose proof (inv_heap _ _ I) as Hh. pose proof (fr_hosts _ _ _ _ F) as HF.
+  assert (Hfresh : forall y c, cell_of s y = Some c -> y <> o).
+  { intros y c Hc. pose proof (live_lt _ _ _ Hh Hc). unfold o. lia. }
+  constructor.
+  - intros y c H1 H2 H3. pose proof (Hfresh _ _ H1) as Hne.
+    assert (H1' : cell_of s1 y = Some c) by (rewrite Hsame; auto).
+    assert (H2' : ~ rooted s1 y) by (rewrite Hrt; exact H2).
+    assert (H3' : ~ In y (o :: L)) by (intros [E|Hin]; [congruence|contradiction]).
+    exact (fr_cell _ _ _ _ F _ _ H1' H2' H3').
+  - intros y cc H1 H2. apply (fr_reading _ _ _ _ F y cc); auto. rewrite Hsame; auto. eapply Hfresh; eauto.
+  - pose proof (fr_next _ _ _ _ F) as Hn. simpl in Hn. lia.
+  - constructor.
+    + intros o' h1 Hs1 Hd. assert (Hs1' : shared_at s1 o' = Some h1) by (rewrite Hsh; exact Hs1).
+      destruct (hf_host _ _ _ HF _ _ Hs1' ltac:(rewrite Enr; exact Hd)) as [A1 A2]. rewrite Enr in A1, A2. auto.
+    + intros o' h2 Ho' Hc2. destruct (Nat.eq_dec o' o) as [->|Hne].
+      * destruct (Hst _ Hc2) as [B1 [B2 B3]]. auto.
+      * apply (hf_new _ _ _ HF); auto. simpl. fold o. lia.
+    + intros o' h2 Ho' Hc2. destruct (hf_old _ _ _ HF o' h2 ltac:(simpl; lia) Hc2) as [h1 Hc1].
+      rewrite Hsame in Hc1; eauto. unfold o. lia.
+    + intros o' h1 Hs1. eapply shared_lt; eauto.
+Qed.
+
+(* ---------------------------------------------------------------------------------- *)
+(* frames and steps that only touch tape / trace / scripts                             *)
+(* ---------------------------------------------------------------------------------- *)
+Lemma frame_core_l {g} s s1 s' L : core_eq s s1 -> FrameG g s1 s' L -> FrameG g s s' L.
+Proof.
+  intros E F. pose proof (fr_hosts _ _ _ _ F) as HF.
+  assert (En : st_next s1 = st_next s) by (destruct E; auto).
+  constructor.
+  - intros x c Hc Hr Hn. apply (fr_cell _ _ _ _ F); auto.
+    + rewrite (ce_cell _ _ _ E). exact Hc.
+    + rewrite (ce_rooted _ _ _ E). exact Hr.
+  - intros x cc Hc Hr. apply (fr_reading _ _ _ _ F x cc); auto. rewrite (ce_cell _ _ _ E). exact Hc.
+  - rewrite <- En. exact (fr_next _ _ _ _ F).
+  - constructor.
+    + intros o h Hs. rewrite <- (ce_nrefs _ _ _ E). apply (hf_host _ _ _ HF). rewrite (ce_shared _ _ _ E). exact Hs.
+    + intros o h'. rewrite <- En. apply (hf_new _ _ _ HF).
+    + intros o h'. rewrite <- En. intros Ho Hc. destruct (hf_old _ _ _ HF o h' Ho Hc) as [h Hh]. exists h.
+      rewrite <- (ce_cell _ _ _ E). exact Hh.
+    + intros o h Hs. rewrite <- En. apply (hf_lt _ _ _ HF o h). rewrite (ce_shared _ _ _ E). exact Hs.
+Qed.
+
+Lemma frame_core_r {g} s s1 s' L : FrameG g s s1 L -> core_eq s1 s' -> FrameG g s s' L.
+Proof.
+  intros F E. pose proof (fr_hosts _ _ _ _ F) as HF.
+  assert (En : st_next s' = st_next s1) by (destruct E; auto).
+  constructor.
+  - intros x c Hc Hr Hn. pose proof (fr_cell _ _ _ _ F _ _ Hc Hr Hn) as G.
+    destruct c as [q|cc|h|].
+    + rewrite (ce_cell _ _ _ E), (ce_rooted _ _ _ E). exact G.
+    + destruct G as [cc' G]. exists cc'. rewrite (ce_cell _ _ _ E), (ce_rooted _ _ _ E). exact G.
+    + rewrite (ce_cell _ _ _ E), (ce_rooted _ _ _ E). exact G.
+    + rewrite (ce_cell _ _ _ E), (ce_rooted _ _ _ E). exact G.
+  - intros x cc Hc Hr. destruct (fr_reading _ _ _ _ F _ _ Hc Hr) as [cc' G]. exists cc'. rewrite (ce_cell _ _ _ E). exact G.
+  - rewrite En. exact (fr_next _ _ _ _ F).
+  - constructor.
+    + intros o h Hs Hd. destruct (hf_host _ _ _ HF _ _ Hs Hd) as [A1 A2]. split.
+      * intros Hl. destruct (A1 Hl) as [h' Hc']. exists h'. rewrite (ce_cell _ _ _ E). exact Hc'.
+      * intros h'. rewrite (ce_cell _ _ _ E), (ce_nrefs _ _ _ E). apply A2.
+    + intros o h'. rewrite (ce_cell _ _ _ E), (ce_nrefs _ _ _ E). apply (hf_new _ _ _ HF).
+    + intros o h'. rewrite (ce_cell _ _ _ E). apply (hf_old _ _ _ HF).
+    + exact (hf_lt _ _ _ HF).
+Qed.
+
+Lemma given_core s s' g : core_eq s s' -> GivenOk s g -> GivenOk s' g.
+Proof.
+  intros E. unfold GivenOk. destruct g as [o|]; auto. intros [h [Hs Hl]]. exists h.
+  rewrite (ce_shared _ _ _ E), (ce_nrefs _ _ _ E). auto.
+Qed.
+
+(* a callee that was not handed the answer leaves the host_query waiting for it *)
+Lemma given_frame s s' g L : GivenOk s g -> Frame s s' L -> GivenOk s' g.
+Proof.
+  unfold GivenOk. destruct g as [o|]; auto. intros [h [Hs Hl]] F.
+  destruct (hf_host _ _ _ (fr_hosts _ _ _ _ F) _ _ Hs ltac:(simpl; lia)) as [A1 A2].
+  destruct (A1 ltac:(simpl; lia)) as [h' Hc']. destruct (A2 _ Hc') as [B1 [B2 B3]]. simpl in B3.
+  exists h'. split; [apply shared_intro; auto|lia].
+Qed.
+
+Lemma settled_core s s' o k : core_eq s s' -> settled s o k -> settled s' o k.
+Proof. intros E H h. rewrite (ce_cell _ _ _ E), (ce_nrefs _ _ _ E). apply H. Qed.
+
+Lemma safe_get_host s o h (Q : hostq -> state -> Prop) :
+  heap_ok s -> cell_of s o = Some (CHost h) -> Q h s -> safe (get_host o) s Q.
+Proof.
+  intros H Hc HQ. unfold get_host. apply safe_bind. eapply safe_touch; eauto.
+Qed.
+
+Lemma nohost_kbot k : nohost k -> kbot k = None.
+Proof. induction k; simpl; auto; intros []. Qed.
